@@ -3,14 +3,23 @@ from ..cfg import search, witness_str, dominated_by_edge, elem_dominates
 from ..expr import show, walk, last, field_of, strip_wrappers, strip_casts, short, const_value, is_assign, assign_parts as _ap, strip_views
 from ..facts import AnalysisBroken
 from ..finite import dominating_facts, flatten_fact
-from ..predabs import Vocab, PredAbs, A, Not, And, Or, T, F
+from ..predabs import Vocab, PredAbs, A, Not, And, Or, T, F, translate, total, known_when, atoms_of
 from ..rules import common
 from ..window import Window, lin, form, show_form, guard_ops, TOP, is_top
 from .c13 import arm_elems
 from .c15 import asg, key_of, _reach_until_ret
 
 TITLE = "WebSocket framing round-trips and reassembles under any segmentation"
-TECHNIQUE = 'cursor-window abstract interpretation of the frame decoder with a symbolic peer length (wrap-aware: wide lengths only through subtraction-form tests); encoder/decoder table extraction; limit-test reachability for every network-fed buffer; must-lockset same-section rule for close-sent; dataflow of the validated/delivered message'
+# Every rule reads its functions through view() (below): a call to a function of the same class / file that is not in the frozen inventory is
+# replaced by the callee's CFG with its parameters bound to the caller's arguments, so the verdict is about the code wherever it was moved to.
+# R7 walks the call graph itself.  If some new function could NOT be spliced in (another class or object, a virtual, try blocks, lambdas) run()
+# empties this table again and the inventory guard applies as usual.
+_FOLLOWS = "reads the anchored functions with every function the rule tables have never seen spliced into its caller (view()): parameters bound, returns continued, destructors in place"
+FOLLOWS_HELPERS = {}
+TECHNIQUE = ('cursor-window abstract interpretation of the frame decoder with a symbolic peer length (wrap-aware: wide lengths only through subtraction-form tests); exact evaluation of the encoder (the header and '
+             'masked-payload bytes the source denotes, for frame shapes around every threshold) against RFC 6455 and the decoder\'s tables; limit-test reachability for every network-fed buffer; must-lockset same-section '
+             'rule for close-sent; dataflow of the validated/delivered message; exact predicate abstraction of the two reassembly functions (where the delivered opcode comes from) with a sibling table comparison; '
+             'all of it over views of the anchored functions in which helpers the rule tables have never seen are spliced in')
 WF = "iora::network::WebSocketFrame"
 WS = "iora::network::WebSocketServer"
 WC = "iora::network::WebSocketClient"
@@ -31,7 +40,11 @@ EXPLANATION = (
     "a close-sent flag that every CLOSE-emitting path sets. R5 protocol reactions: PING → PONG with the same payload, CLOSE echoed at "
     "most once, TEXT delivered only after isValidUtf8() on the reassembled message (the very bytes delivered), oversize → 1009, unknown "
     "opcode → 1002. R6 the parse loops consume exactly what parse() framed and put the remainder back in front of bytes that arrived "
-    "meanwhile. R7 nothing on the data-callback path throws.")
+    "meanwhile. R7 nothing on the data-callback path throws. R8 reassembly: in both handleDataFrame functions a message completed by a CONTINUATION frame "
+    "while a fragmented message is in progress is delivered under the opcode recorded at its START frame (never the frame's own), a TEXT/BINARY frame under "
+    "its own; `in progress` is never read off the emptiness of the reassembly buffer (empty start fragments are valid); server and client deliver for the "
+    "same (opcode, FIN, in-progress) inputs under the same opcode and leave the same record. Roles (cursor, input view, buffers, frame parameter, flags) are "
+    "derived from types and dataflow, not local names; calls to same-class functions that are not in the frozen inventory are spliced into the caller's CFG.")
 NOT_DECIDED = ["reassembly equality for all fragmentations", "UTF-8 validator correctness against the Unicode tables", "incomplete vs protocol error are both nullopt (a malformed control frame parks the connection until the buffer cap)",
                "liveness of the peer after our close frame"]
 
@@ -40,23 +53,75 @@ def wf(ctx, name):
     fs = [f for f in ctx.fb().funcs(WF + "::" + name, WFF) if f.ok]
     if len(fs) != 1:
         raise AnalysisBroken("WebSocketFrame::%s: %d definitions" % (name, len(fs)))
-    return fs[0]
+    return view(ctx, fs[0])
 
 
 def fnc(ctx, cls, name, file, nparams=None):
     fs = [f for f in ctx.fb().funcs(cls + "::" + name, file) if f.ok and (nparams is None or len(f.params) == nparams)]
     if len(fs) != 1:
         raise AnalysisBroken("%s::%s: %d definitions" % (short(cls), name, len(fs)))
-    return fs[0]
+    return view(ctx, fs[0])      # with the helpers the rule tables have never seen spliced in (the function itself when there are none)
+
+
+def parse_roles(f):
+    """(DATA, CUR, CONS): the names of parse()'s input view (the BufferView parameter), of its cursor (the local used as `DATA[cur++]`)
+    and of its consumed out-parameter (the size_t& parameter) — derived from types and dataflow, so that a rename changes nothing"""
+    dps = [p_ for p_ in f.params if "BufferView" in (p_.get("t") or "")]
+    cps = [p_ for p_ in f.params if "&" in (p_.get("t") or "") and "long" in (p_.get("t") or "") and "const" not in (p_.get("t") or "")]
+    if len(dps) != 1 or len(cps) != 1:
+        raise AnalysisBroken("WebSocketFrame::parse: %d BufferView / %d size_t& parameters" % (len(dps), len(cps)))
+    data = dps[0]["n"]
+    curs = set()
+    for x in f.nodes.values():
+        if x.get("k") == "opcall" and x.get("op") == "[]" and key_of(x["args"][0]) == data:
+            idx = strip_casts(x["args"][1])
+            if idx.get("k") == "un" and "++" in idx.get("op", "") and strip_casts(idx["v"]).get("k") == "var":
+                curs.add(strip_casts(idx["v"])["n"])
+    if len(curs) != 1:
+        raise AnalysisBroken("WebSocketFrame::parse: the cursor could not be identified (locals used as `%s[x++]`: %s)" % (data, sorted(curs)))
+    return data, curs.pop(), cps[0]["n"]
+
+
+def const_aliases(f):
+    """{alias: source}: `const T a = (T)b;` with b a local/parameter of the same width that is not written after the declaration — a is
+    another name for b (named locals are looked through, DESIGN 1.2)"""
+    out = {}
+    for e in f.stmts():
+        if e.node.get("k") != "decl":
+            continue
+        for v in e.node["vars"]:
+            i = strip_casts(v.get("init")) if v.get("init") is not None else None
+            if i is None or i.get("k") != "var" or not (v.get("t") or "").startswith("const ") or "&" in (v.get("t") or ""):
+                continue
+            w = lambda t: 64 if "long" in t else 32 if "int" in t else 16 if "short" in t else 8 if "char" in t else 0
+            if w(v["t"]) == 0 or w(v["t"]) < w(i.get("t") or ""):
+                continue
+            src_d = i.get("d")
+            wr = lambda y: (is_assign(y.node) and strip_casts(_ap(y.node)[0]).get("k") == "var" and strip_casts(_ap(y.node)[0]).get("d") == src_d) or \
+                (y.node.get("k") == "un" and ("++" in y.node.get("op", "") or "--" in y.node.get("op", "")) and strip_casts(y.node["v"]).get("k") == "var" and strip_casts(y.node["v"]).get("d") == src_d)
+            if search(f, e, lambda y: y.kind == "stmt" and wr(y), eh=False) is None:
+                out[v["n"]] = i["n"]
+    # chains
+    for a in list(out):
+        seen = {a}
+        while out[a] in out and out[a] not in seen:
+            seen.add(out[a])
+            out[a] = out[out[a]]
+    return out
 
 
 def r1(ctx, r):
     f = wf(ctx, "parse")
-    CUR, SIZES = "pos", {"data.size()"}
+    DATA, CUR, CONS = parse_roles(f)
+    SZ = DATA + ".size()"
+    SIZES = {SZ}
+    alias = const_aliases(f)
+    canon = lambda fm: None if fm is None else form(fm[0], [alias.get(s_, s_) for s_ in fm[1]])
+    L = lambda n: canon(lin(n))
     floor = 0
     for b in f.blocks.values():
         cp = common.cmp_parts(b.cond) if b.cond is not None else None
-        if cp and show(strip_casts(cp[1])) == "data.size()" and cp[0] == "<" and const_value(cp[2]) is not None:
+        if cp and show(strip_casts(cp[1])) == SZ and cp[0] == "<" and const_value(cp[2]) is not None:
             floor = max(floor, const_value(cp[2]))
 
     # lengths as wide as the cursor that come from the input: admitted only through the subtraction-form test
@@ -69,10 +134,34 @@ def r1(ctx, r):
         if e.node.get("k") == "decl":
             cands += [({"n": v["n"], "t": v.get("t")}, v["init"]) for v in e.node["vars"] if v.get("init") is not None]
         for (lhs, rhs) in cands:
-            if ("long" in (lhs.get("t") or "")) and any(t_ in show(rhs) for t_ in ("data.read", "data[")):
+            if ("long" in (lhs.get("t") or "")) and any(t_ in show(rhs) for t_ in (DATA + ".read", DATA + "[")):
                 wide.add(lhs["n"])
 
+    # `const size_t available = size - pos; if (len > available)`: a snapshot of the window taken in the branching block with no cursor write
+    # after it is the window itself — the condition is read with the local replaced by its initialiser
+    from ..facts import _subst_vars
+    snap = {}
+    for b in f.blocks.values():
+        if b.cond is None:
+            continue
+        tab = {}
+        for e in b.elems:
+            if e.kind != "stmt":
+                continue
+            n = e.node
+            if n.get("k") == "decl":
+                for v in n["vars"]:
+                    i = strip_casts(v.get("init")) if v.get("init") is not None else None
+                    if i is not None and (v.get("t") or "").startswith("const ") and i.get("k") == "bin" and i.get("op") == "-" and show(strip_casts(i["lhs"])) in SIZES and key_of(i["rhs"]) == CUR:
+                        tab[v["d"]] = i
+            elif (n.get("k") == "un" and key_of(n.get("v") or {}) == CUR and ("++" in n.get("op", "") or "--" in n.get("op", ""))) or (is_assign(n) and key_of(_ap(n)[0]) == CUR):
+                tab = {}
+        if tab and any(x.get("k") == "var" and x.get("d") in tab for x in walk(b.cond)):
+            snap[id(b.cond)] = _subst_vars(b.cond, tab)
+
     def edge(c, truth):
+        c = snap.get(id(c), c)
+
         def extra(x, t):
             cp = common.cmp_parts(strip_casts(x))
             if not cp:
@@ -83,16 +172,14 @@ def r1(ctx, r):
             # X <= size - pos  (X a local length): avail >= X
             rs = strip_casts(rr)
             if op in ("<=", "<") and rs.get("k") == "bin" and rs.get("op") == "-" and show(strip_casts(rs["lhs"])) in SIZES and key_of(rs["rhs"]) == CUR and key_of(l):
-                return [("atleast", form(1 if op == "<" else 0, (key_of(l),)))]
+                return [("atleast", form(1 if op == "<" else 0, (alias.get(key_of(l), key_of(l)),)))]
             ls = strip_casts(l)
             if op in (">=", ">") and ls.get("k") == "bin" and ls.get("op") == "-" and show(strip_casts(ls["lhs"])) in SIZES and key_of(ls["rhs"]) == CUR and key_of(rr):
-                return [("atleast", form(1 if op == ">" else 0, (key_of(rr),)))]
+                return [("atleast", form(1 if op == ">" else 0, (alias.get(key_of(rr), key_of(rr)),)))]
             return None
-        return guard_ops(c, truth, CUR, SIZES, extra, None, wide)
+        return guard_ops(c, truth, CUR, SIZES, extra, canon, wide)
 
-    def sym_of(n):
-        n = strip_casts(n)
-        return key_of(n)
+    kinds = set()
 
     def elem(e):
         if e.kind != "stmt":
@@ -104,42 +191,50 @@ def r1(ctx, r):
             for v in n["vars"]:
                 if v["n"] == CUR:
                     ops.append(("reset", form(floor) if const_value(strip_casts(v.get("init") or {})) == 0 else None))
-                else:
+                elif v["n"] not in alias:
                     ops.append(("kill", v["n"]))
         elif k == "un" and n.get("op") == "post++" and key_of(n["v"]) == CUR:
-            ops.append(("adv", form(1), "data[pos++]"))
+            ops.append(("adv", form(1), "%s[%s++]" % (DATA, CUR)))
+            kinds.add("byte")
         elif k == "un" and n.get("op") in ("++", "pre++") and key_of(n["v"]) == CUR:
-            ops.append(("adv", form(1), "++pos"))
+            ops.append(("adv", form(1), "++%s" % CUR))
         elif k == "bin" and n.get("op") == "+=" and key_of(n["lhs"]) == CUR:
-            fm = lin(n["rhs"])
-            ops.append(("adv", fm, "pos += %s" % show(n["rhs"])) if fm is not None else ("need", TOP, "pos += %s" % show(n["rhs"])))
+            fm = L(n["rhs"])
+            ops.append(("adv", fm, "%s += %s" % (CUR, show(n["rhs"]))) if fm is not None else ("need", TOP, "%s += %s" % (CUR, show(n["rhs"]))))
         elif k in ("bin", "opcall") and is_assign(n) and key_of(_ap(n)[0]) == CUR:
-            ops.append(("need", TOP, "pos re-based"))
+            ops.append(("need", TOP, "%s re-based" % CUR))
         elif k in ("bin", "opcall") and is_assign(n) and key_of(_ap(n)[0]):
             ops.append(("kill", key_of(_ap(n)[0])))
-        elif k == "opcall" and n.get("op") == "[]" and key_of(n["args"][0]) == "data":
+        elif k == "opcall" and n.get("op") == "[]" and key_of(n["args"][0]) == DATA:
             idx = strip_casts(n["args"][1])
             if not (idx.get("k") == "un" and idx.get("op") == "post++"):
-                fm = lin(idx)
-                ops.append(("need", form(fm[0] + 1, [s for s in fm[1] if s != CUR]) if fm is not None and list(fm[1]).count(CUR) == 1 else TOP, "data[%s]" % show(idx)))
-        elif k == "mcall" and key_of(n.get("obj")) == "data" and last(n.get("callee", "")) in ("readU16BE", "readU16LE", "readU32BE", "readU32LE", "readU64BE", "readU64LE"):
+                fm = L(idx)
+                ops.append(("need", form(fm[0] + 1, [s for s in fm[1] if s != CUR]) if fm is not None and list(fm[1]).count(CUR) == 1 else TOP, "%s[%s]" % (DATA, show(idx))))
+                kinds.add("byte")
+        elif k == "mcall" and key_of(strip_views(n.get("obj"))) == DATA and last(n.get("callee", "")) in ("readU16BE", "readU16LE", "readU32BE", "readU32LE", "readU64BE", "readU64LE"):
             w = {"16": 2, "32": 4, "64": 8}[last(n["callee"])[5:7]]
-            fm = lin(n["args"][0])
-            ops.append(("need", form(fm[0] + w, [s for s in fm[1] if s != CUR]) if fm is not None and list(fm[1]).count(CUR) == 1 else TOP, "data.%s(%s)" % (last(n["callee"]), show(n["args"][0]))))
+            fm = L(n["args"][0])
+            ops.append(("need", form(fm[0] + w, [s for s in fm[1] if s != CUR]) if fm is not None and list(fm[1]).count(CUR) == 1 else TOP, "%s.%s(%s)" % (DATA, last(n["callee"]), show(n["args"][0]))))
+            kinds.add("u%d" % (8 * w))
         elif k == "call" and last(n.get("callee", "")) in ("memcpy", "memmove") and len(n["args"]) == 3:
-            src = lin(n["args"][1])
-            ln = lin(n["args"][2])
-            if src is not None and "data.data()" in src[1]:
-                rest = form(src[0], [s for s in src[1] if s not in (CUR, "data.data()")])
-                ops.append(("need", form(rest[0] + ln[0], list(rest[1]) + list(ln[1])) if ln is not None and list(src[1]).count(CUR) == 1 else TOP, "memcpy(…, data.data() + pos, %s)" % show(n["args"][2])))
-        elif k == "mcall" and last(n.get("callee", "")) in ("resize", "reserve", "assign") and "payload" in show(n.get("obj") or {}) and n.get("args"):
-            ln = lin(n["args"][0])
+            src = L(n["args"][1])
+            ln = L(n["args"][2])
+            if src is not None and DATA + ".data()" in src[1]:
+                rest = form(src[0], [s for s in src[1] if s not in (CUR, DATA + ".data()")])
+                ops.append(("need", form(rest[0] + ln[0], list(rest[1]) + list(ln[1])) if ln is not None and list(src[1]).count(CUR) == 1 else TOP, "memcpy(…, %s.data() + %s, %s)" % (DATA, CUR, show(n["args"][2]))))
+                kinds.add("copy")
+        elif k == "mcall" and last(n.get("callee", "")) in ("resize", "reserve", "assign") and field_of(n.get("obj") or {}) == WF + "::payload" and n.get("args"):
+            ln = L(n["args"][0])
             ops.append(("need", ln if ln is not None else TOP, "payload.%s(%s) within the bytes present" % (last(n["callee"]), show(n["args"][0]))))
+            kinds.add("alloc")
         return ops or None
     w = Window(f, edge, elem, init=None)
     nreq = len(w.checked) + len(w.violations)
-    if nreq < 11:
-        raise AnalysisBroken("WebSocketFrame::parse: only %d reads/advances recognised (floor 11)" % nreq)
+    # the rule must see the header bytes, both extended lengths, the payload copy and its allocation (how many single reads there are
+    # depends on spelling: four `data[pos++]` or one memcpy for the mask key)
+    missing = {"byte", "u16", "u64", "copy", "alloc"} - kinds
+    if missing or nreq < 8:
+        raise AnalysisBroken("WebSocketFrame::parse: only %d reads/advances recognised, kinds missing: %s" % (nreq, sorted(missing)))
     r.instance(nreq)
     for (e, what) in w.checked:
         r.ok("parse: %s inside the input" % what)
@@ -147,14 +242,30 @@ def r1(ctx, r):
         r.fail(f, e, "outside input: %s" % what.split(" within")[0], "WebSocketFrame::parse performs `%s`, which needs %s byte(s) after the cursor, but only %s known to be present on some path: a crafted header "
                "(e.g. a 64-bit length of 2^64-1) reads outside the buffer, wraps the position or sizes an allocation by a peer-chosen number (length_error/bad_alloc on the I/O thread)"
                % (what, show_form(need) if not is_top(need) else "a bound the analysis cannot establish", show_form(have)))
-    # consumed = pos on the success path; 0 on nullopt paths
-    cons = [e for e in f.stmts() if asg(e.node) and key_of(asg(e.node)[0]) == "consumed"]
-    rets = common.returns(f)
+    # consumed = 0 before anything was parsed; on the success path consumed = the cursor behind the payload: either the cursor was advanced by
+    # the copied length and consumed = cursor, or consumed = cursor + the copied length with no such advance
+    cons = [e for e in f.stmts() if asg(e.node) and key_of(asg(e.node)[0]) == CONS]
+    copies = [e for e in f.stmts() if e.node.get("k") == "call" and last(e.node.get("callee", "")) in ("memcpy", "memmove") and len(e.node["args"]) == 3 and field_of(strip_casts(e.node["args"][0]).get("obj") or {}) == WF + "::payload"]
     r.instance()
-    okc = any(key_of(asg(e.node)[1]) == "pos" for e in cons) and any(const_value(strip_casts(asg(e.node)[1])) == 0 and e.block.id == [b for b in f.blocks.values() if f.entry in b.preds or b.id == f.entry][0].id or const_value(strip_casts(asg(e.node)[1])) == 0 for e in cons)
-    r.expect(okc, f, None, "consumed", "parse does not report consumed = pos (and 0 before anything was parsed)", okdesc="consumed = 0 initially, = pos on success")
-    # unmask loop index bounded by the payload size
-    loopb = [b for b in f.blocks.values() if b.cond is not None and common.cmp_parts(b.cond) and common.cmp_parts(b.cond)[0] == "<" and "payload.size()" in show(common.cmp_parts(b.cond)[2])]
+    okc = False
+    if len(copies) == 1 and L(copies[0].node["args"][2]) is not None:
+        plen = L(copies[0].node["args"][2])
+        advs = [e for e in f.stmts() if e.node.get("k") == "bin" and e.node.get("op") == "+=" and key_of(e.node["lhs"]) == CUR and L(e.node["rhs"]) == plen]
+        for e in cons:
+            fm = L(asg(e.node)[1])
+            if fm == form(0, (CUR,)) and len(advs) == 1 and elem_dominates(f, advs[0], e, eh=False):
+                okc = True
+            if fm == form(plen[0], list(plen[1]) + [CUR]) and not advs:
+                okc = True
+        okc = okc and any(const_value(strip_casts(asg(e.node)[1])) == 0 for e in cons)
+    r.expect(okc, f, None, "consumed", "parse does not report consumed = the position behind the payload (and 0 before anything was parsed)", okdesc="consumed = 0 initially, = cursor behind the payload on success")
+    # unmask loop index bounded by the payload size (payload.size(), or the very length the payload was resized to)
+    allocs = [canon(lin(e.node["args"][0])) for e in f.stmts() if e.node.get("k") == "mcall" and last(e.node.get("callee", "")) == "resize" and field_of(e.node.get("obj") or {}) == WF + "::payload" and e.node.get("args")]
+
+    def payload_bound(n):
+        n = strip_casts(n)
+        return (n.get("k") == "mcall" and last(n.get("callee", "")) == "size" and field_of(n.get("obj") or {}) == WF + "::payload") or (L(n) is not None and L(n) in allocs and L(n)[1])
+    loopb = [b for b in f.blocks.values() if b.cond is not None and b.term.get("k") in ("ForStmt", "WhileStmt") and common.cmp_parts(b.cond) and common.cmp_parts(b.cond)[0] == "<" and payload_bound(common.cmp_parts(b.cond)[2])]
     r.instance()
     r.expect(len(loopb) == 1, f, None, "unmask loop", "the unmask loop is not bounded by payload.size()", okdesc="unmask loop i < payload.size()")
 
@@ -188,26 +299,241 @@ def consts_in(n):
     return [const_value(x) for x in walk(n) if x.get("k") in ("int", "char") and const_value(x) is not None]
 
 
+class EncoderRun:
+    """Exact evaluation (A10, constant folding lifted to whole paths) of WebSocketFrame::serialize for ONE concrete frame shape: the CFG of the
+    current source is walked with integer locals held as values (finite.compile_expr gives every expression its C++ width semantics), branch
+    conditions are evaluated, and the bytes appended to the returned vector are collected — header bytes as integers, mask-key and payload bytes
+    as symbols ('key', j) / ('pay', i) / ('xor', a, b).  Nothing of the program is executed; a statement outside this fragment makes the run refuse
+    (NotPure).  What is decided is the byte sequence the source denotes, whatever the spelling (`byte1 |= 126` or `push_back(maskBit | 126)`,
+    `i = 7…0, >> i*8` or `shift = 56…0 step 8`, four push_backs of the key or one insert, xor while appending or in place afterwards)."""
+
+    def __init__(self, f, fin, mask, opc, n, header_only):
+        from ..finite import compile_expr, NotPure
+        self.f, self.N, self.NotPure, self.compile = f, n, NotPure, compile_expr
+        bps = [p_ for p_ in f.params if (p_.get("t") or "") in ("bool", "const bool")]
+        if len(bps) != 1:
+            raise AnalysisBroken("WebSocketFrame::serialize: %d bool parameters" % len(bps))
+        self.special = {"mask_d": bps[0]["d"], "fin": int(fin), "mask": int(mask), "opc": opc}
+        self.env, self.types, self.out, self.outvars, self.cache = {}, {}, [], set(), {}
+        self.header_only = header_only
+        self.spliced = set(f.raw.get("_spliced") or [])
+        self.done = False
+        self._walk()
+
+    # ---- expressions
+    def subst(self, n):
+        def tf(x):
+            k = x.get("k")
+            if k == "member" and (x.get("b") or {}).get("k") == "this":
+                if x.get("n") == WF + "::opcode":
+                    return {"k": "int", "cv": self.special["opc"], "t": "unsigned char"}
+                if x.get("n") == WF + "::fin":
+                    return {"k": "int", "cv": self.special["fin"], "t": "int"}
+            if k == "var" and x.get("parm") is not None and x.get("d") == self.special["mask_d"]:
+                return {"k": "int", "cv": self.special["mask"], "t": "int"}
+            if k == "mcall" and last(x.get("callee", "")) == "size" and not x.get("args") and field_of(x.get("obj") or {}) == WF + "::payload" and access_this(x.get("obj")):
+                return {"k": "int", "cv": self.N, "t": "unsigned long"}
+            if k == "mcall" and last(x.get("callee", "")) == "size" and not x.get("args") and self.is_out(x.get("obj")) and not self.header_only:
+                return {"k": "int", "cv": len(self.out), "t": "unsigned long"}
+            return None
+        return _copy_tree(n, tf)
+
+    def ev(self, n):
+        n2 = self.subst(n)
+        names = sorted({x["n"] for x in walk(n2) if x.get("k") == "var"})
+        for nm in names:
+            if nm not in self.env:
+                raise self.NotPure("`%s` has no known value" % nm)
+        fn_ = self.compile(n2, names)[0]
+        return fn_(*[self.env[nm] for nm in names])
+
+    def ev_as(self, n, t):
+        return self.ev({"k": "cast", "t": t, "v": n})
+
+    def key_idx(self, n):
+        n = strip_casts(n)
+        b, i = (n.get("b"), n.get("i")) if n.get("k") == "idx" else ((n.get("args") or [None, None])[0], (n.get("args") or [None, None])[1]) if n.get("k") == "opcall" and n.get("op") == "[]" else (None, None)
+        if b is not None and field_of(b) in (WF + "::maskKey", WF + "::payload") and access_this(b):
+            return ("key" if field_of(b) == WF + "::maskKey" else "pay", self.ev(i))
+        return None
+
+    def sym(self, n):
+        n = strip_casts(n)
+        kx = self.key_idx(n)
+        if kx is not None:
+            return kx
+        if n.get("k") == "bin" and n.get("op") == "^":
+            a, b = self.sym(n["lhs"]), self.sym(n["rhs"])
+            return ("xor",) + tuple(sorted([a, b], key=lambda t_: t_[0] != "pay"))
+        raise self.NotPure("byte expression `%s`" % show(n)[:40])
+
+    def emit(self, item):
+        if not isinstance(item, int) and self.header_only:
+            self.done = True
+            return
+        self.out.append(item)
+
+    def is_out(self, n):
+        n = strip_casts(n)
+        return n is not None and n.get("k") == "var" and n.get("d") in self.outvars
+
+    # ---- statements
+    def exec_root(self, n):
+        k = n.get("k")
+        if k == "decl":
+            for v in n["vars"]:
+                t = (v.get("t") or "").replace("const ", "")
+                if t.startswith("std::vector<unsigned char"):
+                    self.outvars.add(v["d"])
+                    continue
+                self.types[v["n"]] = t
+                self.env.pop(v["n"], None)
+                if v.get("init") is not None:
+                    try:
+                        self.env[v["n"]] = self.ev_as(v["init"], t)
+                    except self.NotPure:
+                        pass
+            return
+        if k == "ret":
+            if not self.is_out(strip_views(n.get("v"))):
+                raise self.NotPure("returns something other than the output vector")
+            self.done = True
+            return
+        if is_assign(n):
+            lhs, op, rhs = _ap(n)
+            l = strip_casts(lhs)
+            if l.get("k") == "var" and l["n"] in self.types:
+                val = rhs if op == "=" else {"k": "bin", "op": op[:-1], "lhs": lhs, "rhs": rhs}
+                self.env[l["n"]] = self.ev_as(val, self.types[l["n"]])
+                return
+            # in-place masking: (out.data() + S)[i] ^= key[j]   /   out[S + i] ^= key[j]
+            base, idx = (l.get("b"), l.get("i")) if l.get("k") == "idx" else ((l.get("args") or [None, None])[0], (l.get("args") or [None, None])[1]) if l.get("k") == "opcall" and l.get("op") == "[]" else (None, None)
+            if base is not None and op == "^=":
+                b = strip_casts(base)
+                off = 0
+                if b.get("k") == "bin" and b.get("op") == "+":
+                    off, b = self.ev(b["rhs"]), strip_casts(b["lhs"])
+                if (b.get("k") == "mcall" and last(b.get("callee", "")) == "data" and self.is_out(b.get("obj"))) or self.is_out(b):
+                    pos = off + self.ev(idx)
+                    if not 0 <= pos < len(self.out):
+                        raise self.NotPure("in-place xor outside the bytes written")
+                    self.out[pos] = ("xor",) + tuple(sorted([self.out[pos] if not isinstance(self.out[pos], int) else ("int", self.out[pos]), self.sym(rhs)], key=lambda t_: t_[0] != "pay"))
+                    return
+            raise self.NotPure("assignment to `%s`" % show(lhs)[:40])
+        if k == "un" and ("++" in n.get("op", "") or "--" in n.get("op", "")):
+            v = strip_casts(n["v"])
+            if v.get("k") == "var" and v["n"] in self.env:
+                self.env[v["n"]] = self.ev_as({"k": "bin", "op": "+" if "++" in n["op"] else "-", "lhs": v, "rhs": {"k": "int", "cv": 1}}, self.types[v["n"]])
+                return
+            raise self.NotPure("increment of `%s`" % show(v)[:30])
+        if k == "mcall" and self.is_out(n.get("obj")):
+            m = last(n.get("callee", ""))
+            args = [a for a in n.get("args", []) if not a.get("def")]
+            if m in ("reserve", "shrink_to_fit"):
+                return
+            if m in ("push_back", "emplace_back") and len(args) == 1:
+                try:
+                    self.emit(self.ev(args[0]) & 0xFF)
+                except self.NotPure:
+                    if self.header_only:
+                        self.done = True
+                        return
+                    self.emit(self.sym(args[0]))
+                return
+            if m == "insert" and len(args) == 3:
+                at, a, b = strip_iter(args[0]), strip_iter(args[1]), strip_iter(args[2])
+                if not (at.get("k") == "mcall" and last(at.get("callee", "")) == "end" and self.is_out(at.get("obj"))):
+                    raise self.NotPure("insert not at end()")
+                if self.header_only:
+                    self.done = True
+                    return
+                if a.get("k") == "mcall" and last(a["callee"]) == "begin" and b.get("k") == "mcall" and last(b["callee"]) == "end" and field_of(a.get("obj")) == WF + "::payload" and field_of(b.get("obj")) == WF + "::payload":
+                    for i in range(self.N):
+                        self.emit(("pay", i))
+                    return
+                if field_of(a) == WF + "::maskKey" and strip_casts(b).get("k") == "bin" and strip_casts(b).get("op") == "+" and field_of(strip_casts(b)["lhs"]) == WF + "::maskKey":
+                    for j in range(self.ev(strip_casts(b)["rhs"])):
+                        self.emit(("key", j))
+                    return
+            raise self.NotPure("`%s` on the output vector" % m)
+        if k in ("call", "mcall") and n.get("id") in self.spliced:
+            return        # the callee's body is part of this view
+        if k in ("call", "mcall", "opcall", "ctor", "new", "throw"):
+            raise self.NotPure("`%s`" % show(n)[:40])
+        # anything else at statement level is a pure expression (a condition fragment)
+
+    def _walk(self):
+        f = self.f
+        bid, steps = f.entry, 0
+        while not self.done and bid != f.exit:
+            steps += 1
+            if steps > 4000:
+                raise self.NotPure("no end within 4000 blocks")
+            b = f.blocks[bid]
+            for e in b.elems:
+                if e.kind == "stmt" and "root" in e.raw:
+                    self.exec_root(e.node)
+                    if self.done:
+                        return
+            nxt = [s_ for s_ in b.succs if s_ is not None]
+            if b.cond is not None and len(b.succs) == 2 and b.edge_label(0) is True:
+                bid = b.succs[0] if self.ev(b.cond) else b.succs[1]
+            elif len(nxt) == 1:
+                bid = nxt[0]
+            else:
+                raise self.NotPure("block B%d: %d successors, no evaluable condition" % (bid, len(nxt)))
+            if bid is None:
+                raise self.NotPure("pruned edge taken")
+
+
+def access_this(n):
+    """the expression names a member of *this (not of another frame)"""
+    from ..expr import access_path
+    p_ = access_path(n)
+    return bool(p_) and p_[0] == "this"
+
+
+def header_bytes(f, DATA, CUR):
+    """names of the locals that receive the successive header bytes `DATA[CUR++]`, in reading order"""
+    ds = [(e, v["n"]) for e in f.stmts() if e.node.get("k") == "decl" for v in e.node["vars"] if v.get("init") is not None and strip_casts(v["init"]).get("k") == "opcall" and strip_casts(v["init"]).get("op") == "[]" and
+          key_of(strip_casts(v["init"])["args"][0]) == DATA and strip_casts(strip_casts(v["init"])["args"][1]).get("k") == "un" and key_of(strip_casts(strip_casts(v["init"])["args"][1])["v"]) == CUR]
+    allds = list(ds)
+    ds = sorted(allds, key=lambda x: sum(1 for y in allds if y is not x and elem_dominates(f, y[0], x[0], eh=False)))
+    return [n_ for (_e, n_) in ds]
+
+
 def r2(ctx, r):
     fb = ctx.fb()
     p, s = wf(ctx, "parse"), wf(ctx, "serialize")
+    DATA, CUR, _CONS = parse_roles(p)
+    hb = header_bytes(p, DATA, CUR)
+    if len(hb) < 2:
+        raise AnalysisBroken("WebSocketFrame::parse: the two header bytes are not read into locals (`x = %s[%s++]` found %d times)" % (DATA, CUR, len(hb)))
+    B0, B1 = hb[0], hb[1]
     # decoder masks
     dec = {}
     for e in p.stmts():
         n = e.node
         for x in walk(n):
-            if x.get("k") == "bin" and x.get("op") == "&" and key_of(x["lhs"]) in ("byte0", "byte1") and const_value(strip_casts(x["rhs"])) is not None:
+            if x.get("k") == "bin" and x.get("op") == "&" and key_of(x["lhs"]) in (B0, B1) and const_value(strip_casts(x["rhs"])) is not None:
                 dec.setdefault(key_of(x["lhs"]), set()).add(const_value(strip_casts(x["rhs"])))
     r.instance()
-    r.expect(dec.get("byte0", set()) >= {0x80, 0x0F} and dec.get("byte1") == {0x80, 0x7F}, p, None, "decoder bit masks", "parse extracts FIN/opcode/MASK/length with masks %s (expected byte0 & 0x80, & 0x0F; byte1 & 0x80, & 0x7F)"
-             % {k: sorted(hex(v) for v in vs) for k, vs in dec.items()}, okdesc="decoder masks: FIN 0x80, opcode 0x0F, MASK 0x80, length 0x7F")
+    r.expect(dec.get(B0, set()) >= {0x80, 0x0F} and dec.get(B1) == {0x80, 0x7F}, p, None, "decoder bit masks", "parse extracts FIN/opcode/MASK/length with masks %s (expected byte0 & 0x80, & 0x0F; byte1 & 0x80, & 0x7F)"
+             % {("byte0" if k == B0 else "byte1"): sorted(hex(v) for v in vs) for k, vs in dec.items()}, okdesc="decoder masks: FIN 0x80, opcode 0x0F, MASK 0x80, length 0x7F")
+    # the length variable: the local the 7-bit length (second header byte & 0x7F) is stored in
+    lens = {key_of(a_[0]) for a_ in ([asg(e.node) for e in p.stmts() if asg(e.node)] + [({"k": "var", "n": v["n"]}, v["init"]) for e in p.stmts() if e.node.get("k") == "decl" for v in e.node["vars"] if v.get("init") is not None])
+            if any(x.get("k") == "bin" and x.get("op") == "&" and key_of(x["lhs"]) == B1 and const_value(strip_casts(x["rhs"])) == 0x7F for x in walk(a_[1]))}
+    lens.discard(None)
+    if len(lens) != 1:
+        raise AnalysisBroken("WebSocketFrame::parse: the local holding the 7-bit length could not be identified (%s)" % sorted(lens))
+    LEN = lens.pop()
     codes = {}
     for b in p.blocks.values():
         cp = common.cmp_parts(b.cond) if b.cond is not None else None
-        if cp and cp[0] == "==" and key_of(cp[1]) == "payloadLen" and const_value(cp[2]) is not None:
+        if cp and cp[0] == "==" and key_of(cp[1]) == LEN and const_value(cp[2]) is not None:
             arm = _reach_until_ret(p, b.succs[0])[:12]
-            rd = [last(x.node["callee"]) for x in arm if x.kind == "stmt" and x.node.get("k") == "mcall" and last(x.node.get("callee", "")).startswith("readU")]
-            adv = [const_value(strip_casts(x.node["rhs"])) for x in arm if x.kind == "stmt" and x.node.get("k") == "bin" and x.node.get("op") == "+=" and key_of(x.node["lhs"]) == "pos"]
+            rd = [last(x.node["callee"]) for x in arm if x.kind == "stmt" and x.node.get("k") == "mcall" and last(x.node.get("callee", "")).startswith("readU") and asg(p.nodes.get(p.parent.get(x.node["id"])) or {}) and key_of(asg(p.nodes[p.parent[x.node["id"]]])[0]) == LEN]
+            adv = [const_value(strip_casts(x.node["rhs"])) for x in arm if x.kind == "stmt" and x.node.get("k") == "bin" and x.node.get("op") == "+=" and key_of(x.node["lhs"]) == CUR]
             codes[const_value(cp[2])] = (rd[0] if rd else None, adv[0] if adv else None)
     r.instance()
     r.expect(codes == {126: ("readU16BE", 2), 127: ("readU64BE", 8)}, p, None, "decoder length codes", "parse maps the length codes to %s (RFC 6455: 126 → 16-bit big-endian, 127 → 64-bit big-endian)" % codes, okdesc="126 → readU16BE(+2), 127 → readU64BE(+8)")
@@ -218,81 +544,73 @@ def r2(ctx, r):
         m = be_map(g[0]) if len(g) == 1 else None
         want = {k: 8 * (width - 1 - k) for k in range(width)}
         r.expect(m == want, g[0] if g else WF, None, "byte order: %s" % nm, "BufferView::%s combines bytes as %s (big-endian is %s)" % (nm, m, want), okdesc="%s is big-endian" % nm)
-    # encoder thresholds and codes
-    thr = {}
-    size_alias = {v["n"] for x in s.stmts() if x.node.get("k") == "decl" for v in x.node["vars"] if v.get("init") is not None and show(strip_casts(v["init"])) in ("payload.size()", "this->payload.size()")}
-    for b in s.blocks.values():
-        cp = common.cmp_parts(b.cond) if b.cond is not None else None
-        if cp and cp[0] in ("<=", "<") and ("payload.size()" in show(cp[1]) or key_of(cp[1]) in size_alias) and const_value(cp[2]) is not None:
-            limit = const_value(cp[2]) - (1 if cp[0] == "<" else 0)
-            arm = s.blocks[b.succs[0]].elems
-            code = [const_value(strip_casts(x.node["rhs"])) for x in arm if x.kind == "stmt" and x.node.get("k") == "bin" and x.node.get("op") == "|=" and key_of(x.node["lhs"]) == "byte1" and const_value(strip_casts(x.node["rhs"])) is not None]
-            pushes = [x for x in arm if x.kind == "stmt" and x.node.get("k") == "mcall" and last(x.node.get("callee", "")) == "push_back"]
-            thr[limit] = (code[0] if code else None, len(pushes))
-    if not thr:
-        raise AnalysisBroken("serialize: no comparison of the payload size with a constant found (length-form selection has another shape)")
-    r.instance()
-    r.expect(set(thr) == {125, 0xFFFF} and thr.get(125, (1,))[0] is None and thr.get(0xFFFF, (None,))[0] == 126, s, None, "encoder thresholds", "serialize chooses the length form with thresholds/codes %s (expected <=125 inline, <=0xFFFF code 126, else 127)" % thr,
-             okdesc="<=125 inline; <=0xFFFF → 126; else 127")
-    c127 = [x for x in s.stmts() if x.node.get("k") == "bin" and x.node.get("op") == "|=" and key_of(x.node["lhs"]) == "byte1" and const_value(strip_casts(x.node["rhs"])) == 127]
-    r.instance()
-    r.expect(len(c127) == 1, s, None, "64-bit length code", "serialize does not use code 127 for the 64-bit form", okdesc="else-arm → 127")
-    # encoder byte order: 16-bit arm pushes >>8 then >>0; 64-bit loop i = 7..0, >> (i*8)
-    b16 = [b for b in s.blocks.values() if any(x.kind == "stmt" and x.node.get("k") == "bin" and x.node.get("op") == "|=" and const_value(strip_casts(x.node["rhs"])) == 126 for x in b.elems)]
-    r.instance()
-    ok = False
-    if len(b16) == 1:
-        sh = []
-        for x in b16[0].elems:
-            if x.kind == "stmt" and x.node.get("k") == "mcall" and last(x.node.get("callee", "")) == "push_back" and "root" in x.raw and ("payload.size()" in show(x.node) or any(y.get("k") == "var" and y["n"] in size_alias for y in walk(x.node))):
-                sx = [const_value(strip_casts(y["rhs"])) for y in walk(x.node) if y.get("k") == "bin" and y.get("op") == ">>"]
-                sh.append(sx[0] if sx else 0)
-        ok = sh == [8, 0]
-    r.expect(ok, s, None, "16-bit length byte order", "the 16-bit extended length is not written most-significant byte first", okdesc="16-bit length: >>8, then low byte")
-    lp = [b for b in s.blocks.values() if b.cond is not None and b.term.get("k") == "ForStmt" and common.cmp_parts(b.cond) and common.cmp_parts(b.cond)[0] == ">=" and const_value(common.cmp_parts(b.cond)[2]) == 0]
-    r.instance()
-    ok = False
-    if len(lp) == 1:
-        iv = key_of(common.cmp_parts(lp[0].cond)[1])
-        init = [v for x in s.stmts() if x.node.get("k") == "decl" for v in x.node["vars"] if v["n"] == iv and const_value(strip_casts(v.get("init") or {})) == 7]
-        dec_ = [x for x in s.stmts() if x.node.get("k") == "un" and "--" in x.node.get("op", "") and key_of(x.node["v"]) == iv]
-        body = [x for x in s.blocks[lp[0].succs[0]].elems if x.kind == "stmt" and x.node.get("k") == "mcall" and last(x.node.get("callee", "")) == "push_back"]
-        shift_ok = bool(body) and any(y.get("k") == "bin" and y.get("op") == ">>" and strip_casts(y["rhs"]).get("k") == "bin" and strip_casts(y["rhs"]).get("op") == "*" and
-                                      {key_of(strip_casts(y["rhs"])["lhs"]), const_value(strip_casts(strip_casts(y["rhs"])["rhs"]))} == {iv, 8} for y in walk(body[0].node))
-        ok = bool(init) and len(dec_) == 1 and shift_ok
-    r.expect(ok, s, None, "64-bit length byte order", "the 64-bit extended length is not written as eight bytes from shift 56 down to 0", okdesc="64-bit length: i = 7…0, >> (i*8)")
-    # FIN / MASK bits on the encoder side
-    fin = [x for x in s.stmts() if x.node.get("k") == "bin" and x.node.get("op") == "|=" and key_of(x.node["lhs"]) == "byte0"]
-    msk = [v for x in s.stmts() if x.node.get("k") == "decl" for v in x.node["vars"] if v["n"] == "byte1"]
-    r.instance()
-    r.expect(len(fin) == 1 and const_value(strip_casts(fin[0].node["rhs"])) == 0x80 and msk and 0x80 in consts_in(msk[0]["init"]) and 0 in consts_in(msk[0]["init"]), s, None, "encoder bit masks",
-             "serialize does not set FIN as 0x80 of byte 0 and MASK as 0x80 of byte 1", okdesc="encoder: FIN 0x80, MASK 0x80")
+    # ---- encoder: exact evaluation of the bytes serialize() denotes, for frame shapes around every threshold
+    from ..finite import NotPure
+
+    def header(fin, mask, opc, n):
+        return [(0x80 if fin else 0) | opc, (0x80 if mask else 0) | (n if n <= 125 else 126 if n <= 0xFFFF else 127)] + ([] if n <= 125 else list(n.to_bytes(2, "big")) if n <= 0xFFFF else list(n.to_bytes(8, "big")))
+    bad = {"encoder thresholds": None, "64-bit length code": None, "16-bit length byte order": None, "64-bit length byte order": None, "encoder bit masks": None}
+    try:
+        for n in (0, 1, 125, 126, 127, 0x0102, 0xFFFF, 0x10000, 0x0102030405060708):
+            for fin in (0, 1):
+                for mask in (0, 1):
+                    for opc in (0x1, 0xA):
+                        got, want = EncoderRun(s, fin, mask, opc, n, True).out, header(fin, mask, opc, n)
+                        if got == want:
+                            continue
+                        what = "payload of %d bytes, fin=%d, mask=%d, opcode=%d: header bytes %s, RFC 6455 requires %s" % (n, fin, mask, opc, [hex(x) for x in got[:12]], [hex(x) for x in want])
+                        if len(got) < 2 or got[0] != want[0] or (got[1] & 0x80) != (want[1] & 0x80):
+                            key = "encoder bit masks"
+                        elif (got[1] & 0x7F) != (want[1] & 0x7F):
+                            key = "64-bit length code" if (want[1] & 0x7F) == 127 and (got[1] & 0x7F) not in (126,) and len(got) == len(want) else "encoder thresholds"
+                        else:
+                            key = "16-bit length byte order" if len(want) == 4 else "64-bit length byte order" if len(want) == 10 else "encoder thresholds"
+                        if bad[key] is None:
+                            bad[key] = what
+    except NotPure as ex:
+        raise AnalysisBroken("WebSocketFrame::serialize: the header cannot be evaluated exactly (%s)" % ex)
+    msgs = {"encoder thresholds": "serialize chooses the wrong length form", "64-bit length code": "serialize does not use code 127 for the 64-bit form", "16-bit length byte order": "the 16-bit extended length is not written most-significant byte first",
+            "64-bit length byte order": "the 64-bit extended length is not written as eight bytes from shift 56 down to 0", "encoder bit masks": "serialize does not set FIN as 0x80 of byte 0 / MASK as 0x80 of byte 1 / the opcode in the low nibble"}
+    for key in bad:
+        r.instance()
+        r.expect(bad[key] is None, s, None, key, "%s — %s: a frame this endpoint serialises does not parse back to an equal frame" % (msgs[key], bad[key]), okdesc="encoder header exact for 9 sizes × fin × mask × 2 opcodes: %s" % key)
     # opcode fits the low nibble
     en = fb.enums.get("iora::network::WsOpcode")
     r.instance()
     r.expect(en is not None and all(0 <= v["v"] <= 0x0F for v in en["values"]), WF, None, "opcode range", "a WsOpcode enumerator does not fit the 4-bit opcode field", okdesc="all opcodes <= 0x0F")
-    # masking index on both sides
-    for f, what in ((p, "decoder"), (s, "encoder")):
-        mk = [y for x in f.stmts() for y in walk(x.node) if y.get("k") in ("idx", "opcall") and "maskKey[" in show(y) and "%" in show(y)]
-        r.instance()
-        r.expect(bool(mk) and all("% 4" in show(y) for y in mk), f, None, "mask index (%s)" % what, "the %s does not apply the mask key with index i %% 4" % what, okdesc="%s: maskKey[i %% 4]" % what)
-    # key bytes written/read in the same order 0..3
-    for f, what in ((p, "decoder"), (s, "encoder")):
-        ks = [const_value(strip_casts(y.get("i") or (y.get("args") or [None, None])[1])) for x in sorted(f.stmts(), key=lambda e: (e.line, e.idx)) if "root" in x.raw for y in walk(x.node)
-              if (y.get("k") == "idx" or (y.get("k") == "opcall" and y.get("op") == "[]")) and show(y).startswith(("frame.maskKey[", "maskKey[")) and const_value(strip_casts(y.get("i") or (y.get("args") or [None, None])[1])) is not None]
-        r.instance()
-        r.expect(ks == [0, 1, 2, 3], f, None, "mask key order (%s)" % what, "the %s handles the mask key bytes in order %s" % (what, ks), okdesc="%s: key bytes 0,1,2,3" % what)
+    # masking, decoder: maskKey[i % 4] applied to payload byte i
+    mk = [y for x in p.stmts() for y in walk(x.node) if y.get("k") in ("idx", "opcall") and "maskKey[" in show(y) and "%" in show(y)]
+    r.instance()
+    r.expect(bool(mk) and all("% 4" in show(y) for y in mk), p, None, "mask index (decoder)", "the decoder does not apply the mask key with index i % 4", okdesc="decoder: maskKey[i % 4]")
+    # masking, encoder: key bytes 0..3 follow the header, then payload byte i xor key byte i % 4 (exact evaluation of a 6-byte frame); unmasked: payload as is
+    try:
+        got = EncoderRun(s, 1, 1, 2, 6, False).out[2:]
+        plain = EncoderRun(s, 1, 0, 2, 6, False).out[2:]
+    except NotPure as ex:
+        raise AnalysisBroken("WebSocketFrame::serialize: the masked payload cannot be evaluated exactly (%s)" % ex)
+    r.instance()
+    r.expect(got[4:] == [("xor", ("pay", i), ("key", i % 4)) for i in range(6)] and plain == [("pay", i) for i in range(6)], s, None, "mask index (encoder)", "the encoder does not write payload byte i xor mask-key byte i %% 4 (a masked 6-byte frame is written as %s; unmasked as %s)"
+             % (got[4:], plain), okdesc="encoder: payload[i] ^ maskKey[i % 4]; unmasked payload verbatim")
+    r.instance()
+    r.expect(got[:4] == [("key", j) for j in range(4)], s, None, "mask key order (encoder)", "the encoder handles the mask key bytes in order %s" % [x[1] if isinstance(x, tuple) and x[0] == "key" else x for x in got[:4]], okdesc="encoder: key bytes 0,1,2,3")
+    # key bytes read in the order 0..3: four single reads in that order, or one copy of 4 bytes from the cursor into maskKey
+    ks = [const_value(strip_casts(y.get("i") or (y.get("args") or [None, None])[1])) for x in sorted(p.stmts(), key=lambda e: (e.line, e.idx)) if "root" in x.raw and asg(x.node) for y in [strip_casts(asg(x.node)[0])]
+          if (y.get("k") == "idx" or (y.get("k") == "opcall" and y.get("op") == "[]")) and field_of(y.get("b") or (y.get("args") or [None])[0]) == WF + "::maskKey" and const_value(strip_casts(y.get("i") or (y.get("args") or [None, None])[1])) is not None]
+    cp4 = [x for x in p.stmts() if x.node.get("k") == "call" and last(x.node.get("callee", "")) in ("memcpy", "memmove") and len(x.node["args"]) == 3 and field_of(x.node["args"][0]) == WF + "::maskKey" and
+           show(strip_casts(x.node["args"][1])) == "%s.data() + %s" % (DATA, CUR) and const_value(x.node["args"][2]) == 4]
+    r.instance()
+    r.expect(ks == [0, 1, 2, 3] or (not ks and len(cp4) == 1), p, None, "mask key order (decoder)", "the decoder handles the mask key bytes in order %s" % ks, okdesc="decoder: key bytes 0,1,2,3")
 
 
-def grow_sites(f, names):
-    """elements that grow/assign one of the named buffers (by trailing field/variable name)"""
+def grow_sites(f, fields):
+    """elements that grow/assign one of the buffers, given as qualified field names; reference locals bound to the field count as the field"""
     out = []
     for e in f.stmts():
         n = e.node
-        if n.get("k") == "mcall" and last(n.get("callee", "")) in ("insert", "append", "push_back", "emplace_back", "resize") and any(show(strip_casts(n.get("obj") or {})).endswith(x) for x in names):
+        if n.get("k") == "mcall" and last(n.get("callee", "")) in ("insert", "append", "push_back", "emplace_back", "resize") and alias_field(f, n.get("obj")) in fields:
             out.append(e)
         a = asg(n)
-        if a and any(show(strip_casts(a[0])).endswith(x) for x in names) and show(strip_views(a[1])) not in ("", ):
+        if a and alias_field(f, a[0]) in fields and show(strip_views(a[1])) not in ("", ):
             rhs = strip_wrappers(strip_casts(a[1]))
             # assignments that shrink/replace with something bounded elsewhere are not growth: clear/move-out are separate calls
             if not (rhs.get("k") == "ctor" and not [x for x in rhs.get("args", []) if not x.get("def")]):
@@ -328,10 +646,10 @@ def limit_blocks(f, limit_words):
 def r3(ctx, r):
     specs = [
         # (function, buffers, what counts as the limit, label)
-        (fnc(ctx, WS, "onUpgradedData", WSF), (".buffer", "buf"), ("_maxFrameSize",), "server receive buffer"),
-        (fnc(ctx, WS, "handleDataFrame", WSF), ("fragmentBuffer",), ("_maxFrameSize",), "server fragment buffer"),
-        (fnc(ctx, WC, "handleData", WCF), ("_buffer",), ("maxFrameSize", "kMax", "Max"), "client receive buffer"),
-        (fnc(ctx, WC, "handleDataFrame", WCF), ("_fragmentBuffer",), ("maxFrameSize",), "client fragment buffer"),
+        (fnc(ctx, WS, "onUpgradedData", WSF), (WS + "::WsSessionState::buffer",), ("_maxFrameSize",), "server receive buffer"),
+        (fnc(ctx, WS, "handleDataFrame", WSF), (WS + "::WsSessionState::fragmentBuffer",), ("_maxFrameSize",), "server fragment buffer"),
+        (fnc(ctx, WC, "handleData", WCF), (WC + "::_buffer",), ("maxFrameSize", "kMax", "Max"), "client receive buffer"),
+        (fnc(ctx, WC, "handleDataFrame", WCF), (WC + "::_fragmentBuffer",), ("maxFrameSize",), "client fragment buffer"),
     ]
     for (f, names, words, label) in specs:
         grows = grow_sites(f, names)
@@ -341,8 +659,8 @@ def r3(ctx, r):
         for e in grows:
             r.instance()
             # transient: appended, moved out to a local and cleared inside the same block (critical section) — nothing persists
-            objt = show(strip_casts(e.node.get("obj") or (asg(e.node) or [{}])[0] or {}))
-            if e.node.get("k") == "mcall" and any(x.kind == "stmt" and x.node.get("k") == "mcall" and last(x.node.get("callee", "")) == "clear" and show(strip_casts(x.node.get("obj") or {})) == objt for x in e.block.elems[e.idx + 1:]):
+            objt = alias_field(f, e.node.get("obj") or (asg(e.node) or [{}])[0] or {})
+            if e.node.get("k") == "mcall" and any(x.kind == "stmt" and x.node.get("k") == "mcall" and last(x.node.get("callee", "")) == "clear" and alias_field(f, x.node.get("obj") or {}) == objt for x in e.block.elems[e.idx + 1:]):
                 r.ok("%s: `%s` is moved out and cleared in the same critical section" % (last(f.name), show(e.node)[:40]))
                 continue
             # a growth of persistent state must be followed by a limit test before the function returns normally,
@@ -355,7 +673,8 @@ def r3(ctx, r):
     # the receive-buffer bound is applied to the UNPARSED REMAINDER (one incomplete frame), never to bytes that may still contain
     # complete frames: the compared quantity is `size - offset` taken after the parse loop
     for (f, label) in ((fnc(ctx, WS, "onUpgradedData", WSF), "server"), (fnc(ctx, WC, "handleData", WCF), "client")):
-        ps = [e for e in f.stmts() if e.node.get("k") in ("call", "mcall") and last(e.node.get("callee", "")) == "parse" and "WebSocketFrame" in e.node.get("callee", "")]
+        pl = ParseLoop(f, label)
+        ps = [pl.ps]
         cmps = []
         for e in f.stmts():
             if "root" not in e.raw:
@@ -385,7 +704,9 @@ def r3(ctx, r):
             if len(qd) != 1 or qd[0][1].get("init") is None:
                 raise AnalysisBroken("%s: the quantity compared with the frame-size limit (`%s`) is not a single initialised local" % (last(f.name), show(lhs)[:40]))
             i = strip_casts(qd[0][1]["init"])
-            if not (i.get("k") == "bin" and i.get("op") == "-" and "size()" in show(i["lhs"]) and key_of(i["rhs"]) == "offset"):
+            if pl.L is None:
+                raise AnalysisBroken("%s: the parse loop's buffer and offset could not be identified from the parse() call" % last(f.name))
+            if not (i.get("k") == "bin" and i.get("op") == "-" and show(strip_casts(i["lhs"])) == "%s.size()" % pl.L and strip_casts(i["rhs"]).get("k") == "var" and strip_casts(i["rhs"])["d"] == pl.off_d):
                 ok, why, where = False, "`%s` is `%s`, not the size of the unparsed remainder (size() - offset)" % (q[0], show(i)[:50]), e
                 break
             if search(f, qd[0][0], lambda y: y is ps[0], eh=False) is not None:
@@ -413,19 +734,35 @@ def r3(ctx, r):
     if lam_fn is None:
         raise AnalysisBroken("HttpServer::start: transport onClose callback not found")
     overrides = [g for g in fb.methods_of(WS) if g.ok and hook_calls and last(g.name) == last(hook_calls[0].node["callee"])]
+    known_r3 = _known_functions()
     okh = len(hook_calls) == 1 and len(overrides) == 1
     if okh:
         la = ctx.locks()
-        ov = overrides[0]
+        ov = view(ctx, overrides[0])
         er = [e for e in ov.stmts() if e.node.get("k") == "mcall" and last(e.node.get("callee", "")) == "erase" and field_of(strip_casts(e.node.get("obj"))) == WS + "::_sessions"]
         okh = len(er) == 1 and la.holds(ov, er[0], WSM) and not la.mutexes(lam_fn, hook_calls[0])
+    if not okh and known_r3 is not None:
+        unk = sorted({e.node["callee"] for e in lam_fn.stmts() if e.node.get("k") in ("call", "mcall") and e.node.get("callee") and e.node["callee"] not in known_r3 and
+                      any("/include/iora/" in g.file or "/src/" in g.file for g in fb.by_name.get(e.node["callee"], []))})
+        if unk:
+            raise AnalysisBroken("HttpServer::start: the transport onClose callback now runs through %s, which this rule does not follow" % ", ".join(short(u) for u in unk))
     r.expect(okh, lam_fn, hook_calls[0] if hook_calls else None, "session state kept after the connection closed", "when the transport reports an upgraded connection closed, nothing tells WebSocketServer: its per-session state "
              "(receive and fragment buffers, up to maxFrameSize each) stays forever and the application never sees onClose — a peer that connects, sends most of a large frame and drops the connection grows server memory without bound",
              okdesc="transport close → virtual hook (no lock held) → WebSocketServer erases _sessions[sid] under _wsMutex")
     # the overflow reaction ends the session / discards the state
-    for (f, label, flag) in ((fnc(ctx, WS, "handleDataFrame", WSF), "server fragment buffer", "tooLarge"), (fnc(ctx, WC, "handleDataFrame", WCF), "client fragment buffer", "tooLarge")):
-        flags = [v for e in f.stmts() if e.node.get("k") == "decl" for v in e.node["vars"] if v["n"] == flag]
+    for (f, label) in ((fnc(ctx, WS, "handleDataFrame", WSF), "server fragment buffer"), (fnc(ctx, WC, "handleDataFrame", WCF), "client fragment buffer")):
+        # the overflow flag is the bool local whose truth leads to the 1009 close (derived from the reaction, not named)
+        flags = []
+        react = [e for e in f.stmts() if e.node.get("k") == "mcall" and 1009 in [const_value(strip_casts(a)) for a in e.node.get("args", [])]]
+        for b in f.blocks.values():
+            c, st_, sf_ = common.branch(b) if b.cond is not None else (None, None, None)
+            if c is not None and c.get("k") == "var" and "bool" in (c.get("t") or "") and st_ is not None and st_ != sf_ and c["n"] not in flags and \
+                    any(dominated_by_edge(f, e, b, b.succs.index(st_), eh=False) for e in react):
+                flags.append(c["n"])
+        flag = flags[0] if len(flags) == 1 else None
         r.instance()
+        if len(flags) > 1:
+            raise AnalysisBroken("%s: %d bool locals lead to the 1009 close (%s)" % (last(f.name), len(flags), flags))
         if not flags:
             r.fail(f, None, "overflow reaction: %s" % label, "%s has no overflow flag/reaction for the %s" % (short(f.name), label))
             continue
@@ -504,9 +841,14 @@ def r4(ctx, r):
              "sendClose hands the CLOSE frame to the transport before closeSent is set under _wsMutex", okdesc="sendClose: flag set (under _wsMutex) before the CLOSE is sent")
     # client: every CLOSE-emitting path sets a close-sent flag that the data senders test
     closers = []
+    known_ = _known_functions() or set()
+    cg_ = ctx.cg()
     for f in fb.in_file(WCF):
         if not f.ok or not f.name.startswith(WC + "::"):
             continue
+        if known_ and f.name not in known_ and f.kind != "lambda" and cg_.callers.get(f.name):
+            continue        # a helper the rule tables have never seen: judged as part of each caller (view() splices it in)
+        f = view(ctx, f)
         for e in f.stmts():
             if e.node.get("k") in ("call", "mcall") and last(e.node.get("callee", "")) == "makeClose":
                 closers.append((f, e))
@@ -563,6 +905,14 @@ def r4(ctx, r):
                         ok = True
         r.expect(ok, f, e, "client CLOSE not recorded: %s" % last(f.name), "WebSocketClient::%s emits a CLOSE frame without setting the close-sent flag in the same critical section as the hand-off to the transport "
                  "(a data sender can pass its test between the two)" % last(f.name), okdesc="client %s: flag set + CLOSE hand-off in one critical section" % last(f.name))
+
+
+def frame_param(f):
+    """name of the function's WebSocketFrame parameter (the frame being handled) — derived from its type"""
+    ps = [p_ for p_ in f.params if "WebSocketFrame" in (p_.get("t") or "")]
+    if len(ps) != 1:
+        raise AnalysisBroken("%s: %d WebSocketFrame parameters" % (short(f.name), len(ps)))
+    return ps[0]["n"]
 
 
 def delivered_source(f, cbname):
@@ -645,7 +995,8 @@ def r5(ctx, r):
         mk = [e for e in ping if e.kind == "stmt" and e.node.get("k") in ("call", "mcall") and last(e.node.get("callee", "")) == "makePong"]
         snd = [e for e in ping if e.kind == "stmt" and e.node.get("k") == "mcall" and last(e.node.get("callee", "")) in ("sendRaw", "sendRawBytes")]
         r.instance()
-        r.expect(len(mk) == 1 and len(snd) == 1 and show(strip_views(mk[0].node["args"][0])) == "frame.payload", hf, mk[0] if mk else None, "%s ping reaction" % label, "the %s does not answer a PING with a PONG carrying frame.payload" % label,
+        fp = frame_param(hf)
+        r.expect(len(mk) == 1 and len(snd) == 1 and show(strip_views(mk[0].node["args"][0])) == fp + ".payload" and strip_casts(strip_views(mk[0].node["args"][0])["b"]).get("parm") is not None, hf, mk[0] if mk else None, "%s ping reaction" % label, "the %s does not answer a PING with a PONG carrying frame.payload" % label,
                  okdesc="%s: PING → PONG(frame.payload)" % label)
         if label == "client":
             r.instance()
@@ -696,41 +1047,160 @@ def r5(ctx, r):
         r.expect(len(big) >= 1, hd, None, "%s oversize reaction" % label, "an oversize message does not lead to close 1009 in the %s" % label, okdesc="%s: oversize → 1009" % label)
         # fragments are joined in order: start assigns, continuation appends at the end
         names = ("fragmentBuffer", "_fragmentBuffer")
-        st = [e for e in hd.stmts() if asg(e.node) and show(strip_casts(asg(e.node)[0])).endswith(names) and show(strip_views(asg(e.node)[1])) == "frame.payload"]
+        fpd = frame_param(hd) + ".payload"
+        st = [e for e in hd.stmts() if asg(e.node) and show(strip_casts(asg(e.node)[0])).endswith(names) and show(strip_views(asg(e.node)[1])) == fpd]
         ap = [e for e in hd.stmts() if e.node.get("k") == "mcall" and last(e.node.get("callee", "")) == "insert" and show(strip_casts(e.node.get("obj"))).endswith(names)]
         r.instance()
-        ok = len(st) == 1 and len(ap) == 1 and ".end()" in show(ap[0].node["args"][0]) and any(x in show(ap[0].node["args"][0]) for x in names) and "frame.payload.begin()" in show(ap[0].node["args"][1]) and "frame.payload.end()" in show(ap[0].node["args"][2])
+        ok = len(st) == 1 and len(ap) == 1 and ".end()" in show(ap[0].node["args"][0]) and any(x in show(ap[0].node["args"][0]) for x in names) and fpd + ".begin()" in show(ap[0].node["args"][1]) and fpd + ".end()" in show(ap[0].node["args"][2])
         r.expect(ok, hd, ap[0] if ap else None, "%s fragment order" % label, "fragments are not joined as start = payload, continuation appended at end()", okdesc="%s: start assigns, continuation appends at end()" % label)
+
+
+def _decl_of(f, d):
+    for e in f.stmts():
+        if e.node.get("k") == "decl":
+            for v in e.node["vars"]:
+                if v["d"] == d:
+                    return e, v
+    return None, None
+
+
+def strip_iter(n):
+    """strip_views plus the iterator → const_iterator conversion libstdc++ inserts around `v.end()` handed to insert()"""
+    while True:
+        n = strip_views(n)
+        if n is not None and n.get("k") == "ctor" and "__normal_iterator" in (n.get("cls") or "") and len([a for a in n.get("args", []) if not a.get("def")]) == 1:
+            n = [a for a in n["args"] if not a.get("def")][0]
+            continue
+        return n
+
+
+def alias_field(f, n, depth=0):
+    """qualified field an expression names, looking through reference locals (`auto& buf = it->second.buffer; buf.insert(…)`)"""
+    n = strip_wrappers(strip_casts(n)) if n is not None else None
+    if n is None:
+        return None
+    if n.get("k") == "var" and depth < 3:
+        _e, v = _decl_of(f, n.get("d"))
+        if v is not None and "&" in (v.get("t") or "") and v.get("init") is not None:
+            return alias_field(f, v["init"], depth + 1)
+        return None
+    return field_of(n)
+
+
+class ParseLoop:
+    """The roles in a receive function's parse loop, identified by dataflow from the one WebSocketFrame::parse call — not by local names:
+    `cons` is the variable handed to parse() as its out-parameter, the view handed to it is {L.data() + off, L.size() - off} which names the
+    local buffer L and the offset `off`, `frame` is the variable that receives parse()'s result, `field` is the member L was filled from."""
+
+    def __init__(self, f, label):
+        self.f = f
+        ps = [e for e in f.stmts() if e.node.get("k") in ("call", "mcall") and last(e.node.get("callee", "")) == "parse" and "WebSocketFrame" in e.node.get("callee", "")]
+        if len(ps) != 1 or len(ps[0].node.get("args", [])) != 2:
+            raise AnalysisBroken("%s: %d calls of WebSocketFrame::parse" % (last(f.name), len(ps)))
+        self.ps = ps[0]
+        c = strip_views(self.ps.node["args"][1])
+        if c is None or c.get("k") != "var":
+            raise AnalysisBroken("%s: parse()'s consumed argument is not a local" % last(f.name))
+        self.cons, self.cons_d = c["n"], c["d"]
+        v = strip_views(self.ps.node["args"][0])
+        if v is not None and v.get("k") == "var":
+            _e, dv = _decl_of(f, v["d"])
+            v = strip_casts(dv["init"]) if dv is not None and dv.get("init") is not None else None
+        args = [a for a in ((v or {}).get("args") or (v or {}).get("vals") or []) if not a.get("def")]
+        self.L = self.off = None
+        if len(args) == 2:
+            a0, a1 = strip_casts(args[0]), strip_casts(args[1])
+            if a0.get("k") == "bin" and a0.get("op") == "+" and a1.get("k") == "bin" and a1.get("op") == "-":
+                p0, o0, p1, o1 = strip_casts(a0["lhs"]), strip_casts(a0["rhs"]), strip_casts(a1["lhs"]), strip_casts(a1["rhs"])
+                if p0.get("k") == "mcall" and last(p0["callee"]) == "data" and p1.get("k") == "mcall" and last(p1["callee"]) == "size" and o0.get("k") == "var" and o1.get("k") == "var" and o0["d"] == o1["d"] and \
+                        strip_casts(p0["obj"]).get("k") == "var" and strip_casts(p1["obj"]).get("k") == "var" and strip_casts(p0["obj"])["d"] == strip_casts(p1["obj"])["d"]:
+                    self.L, self.L_d, self.off, self.off_d = strip_casts(p0["obj"])["n"], strip_casts(p0["obj"])["d"], o0["n"], o0["d"]
+        # the variable that receives the parsed frame
+        self.frame = self.frame_d = None
+        par = f.nodes.get(f.parent.get(self.ps.node["id"]))
+        while par is not None and par.get("k") == "cast":
+            par = f.nodes.get(f.parent.get(par["id"]))
+        for e in f.stmts():
+            if e.node.get("k") == "decl":
+                for dv in e.node["vars"]:
+                    if dv.get("init") is not None and strip_views(dv["init"]) is self.ps.node:
+                        self.frame, self.frame_d = dv["n"], dv["d"]
+        if self.frame is None and par is not None and asg(par) and strip_casts(asg(par)[0]).get("k") == "var":
+            self.frame, self.frame_d = strip_casts(asg(par)[0])["n"], strip_casts(asg(par)[0])["d"]
+        # the member the local buffer was filled from
+        self.field = None
+        if self.L is not None:
+            srcs = set()
+            for e in f.stmts():
+                a = asg(e.node)
+                if a and strip_casts(a[0]).get("k") == "var" and strip_casts(a[0])["d"] == self.L_d:
+                    srcs.add(alias_field(f, strip_views(a[1])))
+                if e.node.get("k") == "mcall" and last(e.node.get("callee", "")) == "swap" and e.node.get("args"):
+                    o_, a_ = strip_casts(e.node["obj"]), strip_casts(e.node["args"][0])
+                    for x, y in ((o_, a_), (a_, o_)):
+                        if x.get("k") == "var" and x.get("d") == self.L_d:
+                            srcs.add(alias_field(f, y))
+            _e, dv = _decl_of(f, self.L_d)
+            if dv is not None and dv.get("init") is not None and alias_field(f, strip_views(dv["init"])):
+                srcs.add(alias_field(f, strip_views(dv["init"])))
+            srcs.discard(None)
+            if len(srcs) == 1:
+                self.field = srcs.pop()
 
 
 def r6(ctx, r):
     for cls, file, fnm, label in ((WS, WSF, "onUpgradedData", "server"), (WC, WCF, "handleData", "client")):
         f = fnc(ctx, cls, fnm, file)
-        ps = [e for e in f.stmts() if e.node.get("k") in ("call", "mcall") and last(e.node.get("callee", "")) == "parse" and "WebSocketFrame" in e.node.get("callee", "")]
-        adv = [e for e in f.stmts() if e.node.get("k") == "bin" and e.node.get("op") == "+=" and key_of(e.node["lhs"]) == "offset"]
+        pl = ParseLoop(f, label)
+        if pl.L is None or pl.frame is None or pl.field is None:
+            raise AnalysisBroken("%s: the parse loop's buffer / offset / frame variable / source member could not be identified from the parse() call (view {L.data() + off, L.size() - off})" % last(f.name))
+        ps = [pl.ps]
+        adv = [e for e in f.stmts() if e.node.get("k") == "bin" and e.node.get("op") == "+=" and strip_casts(e.node["lhs"]).get("k") == "var" and strip_casts(e.node["lhs"])["d"] == pl.off_d]
         r.instance()
-        ok = len(ps) == 1 and len(adv) == 1 and key_of(adv[0].node["rhs"]) == "consumed" and key_of(ps[0].node["args"][1]) == "consumed" and elem_dominates(f, ps[0], adv[0], eh=False)
+        ok = len(adv) == 1 and strip_casts(adv[0].node["rhs"]).get("k") == "var" and strip_casts(adv[0].node["rhs"])["d"] == pl.cons_d and elem_dominates(f, ps[0], adv[0], eh=False)
         if ok:
             # consumed is reset for every call and nothing else writes offset
-            others = [e for e in f.stmts() if (asg(e.node) and key_of(asg(e.node)[0]) == "offset") or (e.node.get("k") == "un" and key_of(e.node.get("v") or {}) == "offset")]
+            others = [e for e in f.stmts() if (asg(e.node) and strip_casts(asg(e.node)[0]).get("k") == "var" and strip_casts(asg(e.node)[0])["d"] == pl.off_d) or
+                      (e.node.get("k") == "un" and strip_casts(e.node.get("v") or {}).get("k") == "var" and strip_casts(e.node["v"])["d"] == pl.off_d and ("++" in e.node.get("op", "") or "--" in e.node.get("op", "")))]
             ok = not others
             # loop exits when parse returns nullopt
-            fb_ = [b for b in f.blocks.values() if b.cond is not None and show(common.branch(b)[0] or {}).replace("(bool)", "") in ("frame", "frame.has_value()", "frame.operator bool()")]
+            def is_frame_test(c):
+                c = strip_casts(c) if c is not None else None
+                while c is not None and c.get("k") == "mcall" and last(c.get("callee", "")) in ("has_value", "operator bool"):
+                    c = strip_casts(c.get("obj"))
+                return c is not None and c.get("k") == "var" and c.get("d") == pl.frame_d
+            fb_ = [b for b in f.blocks.values() if b.cond is not None and is_frame_test(common.branch(b)[0])]
             # (the side on which there is no frame never comes back to parse)
             ok = ok and len(fb_) == 1 and common.branch(fb_[0])[2] is not None and search(f, ("block", common.branch(fb_[0])[2]), lambda x: x is ps[0], eh=False) is None
-            # the view starts at offset with the remaining size
-            vw = [v for e in f.stmts() if e.node.get("k") == "decl" for v in e.node["vars"] if v["n"] == "view"]
-            ok = ok and len(vw) == 1 and "localBuffer.data() + offset" in show(vw[0]["init"]) and "localBuffer.size() - offset" in show(vw[0]["init"])
         r.expect(ok, f, adv[0] if adv else None, "%s consumption" % label, "the %s parse loop does not advance by exactly the `consumed` of the same parse() call over the view [offset, end), leaving on nullopt" % label,
                  okdesc="%s: view = [offset, end); offset += consumed; nullopt → leave" % label)
-        # remainder put back in front of bytes that arrived meanwhile
-        rem = [v for e in f.stmts() if e.node.get("k") == "decl" for v in e.node["vars"] if v["n"] == "remainder"]
-        ins = [e for e in f.stmts() if e.node.get("k") == "mcall" and last(e.node.get("callee", "")) == "insert" and key_of(e.node.get("obj")) == "remainder"]
-        back = [e for e in f.stmts() if asg(e.node) and key_of(strip_views(asg(e.node)[1])) == "remainder"]
+        # remainder put back in front of bytes that arrived meanwhile: the member ends up as L[off, end) ++ (what it holds now).  Two spellings:
+        # (A) a temporary built from [L.begin() + off, L.end()), the member's content appended at its end(), the temporary moved into the member;
+        # (B) [L.begin() + off, L.end()) inserted at the member's begin()
+        lo, hi = "%s.begin() + %s" % (pl.L, pl.off), "%s.end()" % pl.L
+        is_buf = lambda n: alias_field(f, n) == pl.field
+        tmp = [(e, v) for e in f.stmts() if e.node.get("k") == "decl" for v in e.node["vars"] if v.get("init") is not None and strip_casts(v["init"]).get("k") == "ctor" and
+               [show(strip_casts(a)) for a in strip_casts(v["init"]).get("args", []) if not a.get("def")] == [lo, hi]]
+        okA = okB = False
+        where = None
+        if len(tmp) == 1:
+            td = tmp[0][1]["d"]
+            is_tmp = lambda n: strip_casts(n) is not None and strip_casts(n).get("k") == "var" and strip_casts(n)["d"] == td
+            ins = [e for e in f.stmts() if e.node.get("k") == "mcall" and last(e.node.get("callee", "")) == "insert" and is_tmp(e.node.get("obj"))]
+            back = [e for e in f.stmts() if asg(e.node) and is_tmp(strip_views(asg(e.node)[1])) and is_buf(asg(e.node)[0])]
+            where = back[0] if back else None
+            if len(ins) == 1 and len(back) == 1:
+                a_ = [strip_iter(x) for x in ins[0].node["args"] if not x.get("def")]
+                ends = lambda x, m: x is not None and x.get("k") == "mcall" and last(x.get("callee", "")) == m
+                okA = len(a_) == 3 and ends(a_[0], "end") and is_tmp(a_[0].get("obj")) and ends(a_[1], "begin") and is_buf(a_[1].get("obj")) and ends(a_[2], "end") and is_buf(a_[2].get("obj")) and elem_dominates(f, ins[0], back[0], eh=False) and \
+                    elem_dominates(f, tmp[0][0], ins[0], eh=False)
+        pre = [e for e in f.stmts() if e.node.get("k") == "mcall" and last(e.node.get("callee", "")) == "insert" and is_buf(e.node.get("obj")) and search(f, ps[0], lambda y, e=e: y is e, eh=False) is not None]
+        if len(pre) == 1 and not tmp:
+            a_ = [strip_iter(x) for x in pre[0].node["args"] if not x.get("def")]
+            where = pre[0]
+            okB = len(a_) == 3 and a_[0].get("k") == "mcall" and last(a_[0].get("callee", "")) == "begin" and is_buf(a_[0].get("obj")) and show(a_[1]) == lo and show(a_[2]) == hi
         r.instance()
-        ok = len(rem) == 1 and len(ins) == 1 and len(back) == 1 and "localBuffer.begin() + offset" in show(rem[0]["init"]) and "localBuffer.end()" in show(rem[0]["init"]) and \
-            "remainder.end()" in show(ins[0].node["args"][0]) and elem_dominates(f, ins[0], back[0], eh=False)
-        r.expect(ok, f, back[0] if back else None, "%s remainder order" % label, "the unparsed remainder is not put back as [offset, end) followed by the bytes that arrived during parsing", okdesc="%s: buffer = remainder ++ newly arrived" % label)
+        r.expect(okA or okB, f, where, "%s remainder order" % label, "the unparsed remainder is not put back as [offset, end) followed by the bytes that arrived during parsing", okdesc="%s: buffer = remainder ++ newly arrived" % label)
 
 
 def r7(ctx, r):
@@ -776,18 +1246,709 @@ def r7(ctx, r):
         raise AnalysisBroken("only %d functions reachable from the WebSocket data callbacks (floor 12)" % n)
 
 
-def anchors(ctx, r):
-    tab = [(wf(ctx, "parse"), ["pos", "data", "byte0", "byte1", "consumed", "payloadLen"]), (wf(ctx, "serialize"), ["byte0", "byte1", "out"]),
-           (fnc(ctx, WS, "onUpgradedData", WSF), ["localBuffer", "offset", "consumed", "view", "remainder"]), (fnc(ctx, WC, "handleData", WCF), ["localBuffer", "offset", "consumed", "view", "remainder"]),
-           (fnc(ctx, WS, "handleDataFrame", WSF), ["tooLarge", "frame"]), (fnc(ctx, WC, "handleDataFrame", WCF), ["tooLarge", "frame"])]
-    for f, names in tab:
-        common.require_names(f, names)
+# ------------------------------------------------------------------ R8 reassembly: which opcode a completed message is delivered under
+
+OPC = "iora::network::WsOpcode"
+R8_IN = ("fT", "fB", "fC", "fin", "inprog")                 # the frame's opcode (exactly one), its FIN bit, `a message is in progress` (= an opcode is recorded)
+R8_ST = ("x_rec", "x_own", "f_rec", "f_own")                # what the delivered-opcode local / the opcode-record field hold: the value recorded
+                                                            # when the function was entered, the frame's own opcode, or (neither) a constant
+
+
+def _is_opcode_t(n):
+    return OPC in ((n or {}).get("t") or "")
+
+
+class Reassembly:
+    """Exact predicate abstraction (A5) of one handleDataFrame over a vocabulary that says where the opcode of the delivered message comes
+    from.  Everything is identified by dataflow and declarations, not by local names: the frame is the WebSocketFrame parameter; the opcode
+    record is the one WsOpcode field the function assigns; the reassembly buffer is the field frame.payload is assigned/appended to; the
+    delivered opcode is the WsOpcode local the delivery dispatch compares with TEXT/BINARY.  Conditions over anything else (sizes, limits,
+    the buffer's emptiness) are unknown to the abstraction, i.e. free: in particular an empty buffer says nothing about `in progress`."""
+
+    def __init__(self, hd, label):
+        self.f, self.label = hd, label
+        f = hd
+        fps = [p for p in f.params if "WebSocketFrame" in (p.get("t") or "")]
+        if len(fps) != 1:
+            raise AnalysisBroken("%s handleDataFrame: %d WebSocketFrame parameters" % (label, len(fps)))
+        self.frame_d = fps[0]["d"]
+        # the opcode record: WsOpcode-typed members (not of the frame) this function assigns
+        recs = set()
+        for e in f.stmts():
+            a = asg(e.node)
+            if a and strip_casts(a[0]).get("k") == "member" and _is_opcode_t(strip_casts(a[0])) and not self.is_own(a[0]):
+                recs.add(field_of(a[0]))
+            if e.node.get("k") == "call" and e.node.get("callee") == "std::exchange" and e.node.get("args") and strip_casts(e.node["args"][0]).get("k") == "member" and _is_opcode_t(strip_casts(e.node["args"][0])):
+                recs.add(field_of(e.node["args"][0]))
+        if len(recs) != 1:
+            raise AnalysisBroken("%s handleDataFrame: %d opcode-record fields assigned here (%s) — the reassembly state is kept in a shape this rule does not model" % (label, len(recs), sorted(x or "?" for x in recs)))
+        self.rec = recs.pop()
+        # the reassembly buffer: the field the frame's payload is assigned / appended to
+        bufs = set()
+        for e in f.stmts():
+            a = asg(e.node)
+            if a and strip_casts(a[0]).get("k") == "member" and self.is_payload(strip_views(a[1])):
+                bufs.add(field_of(a[0]))
+            if e.node.get("k") == "mcall" and last(e.node.get("callee", "")) in ("insert", "append", "assign") and any(self.is_payload(y) for a_ in e.node.get("args", []) for y in walk(a_)):
+                bufs.add(field_of(e.node.get("obj")))
+        bufs.discard(None)
+        bufs = {b for b in bufs if b != WF + "::payload"}
+        if len(bufs) != 1:
+            raise AnalysisBroken("%s handleDataFrame: %d reassembly buffers found (%s)" % (label, len(bufs), sorted(bufs)))
+        self.buf = bufs.pop()
+        # the delivery dispatch and the local it reads
+        self.dispatch, xs = [], {}
+        for b in f.blocks.values():
+            c = None
+            if b.term and b.term.get("k") == "SwitchStmt" and b.cond is not None:
+                c = strip_casts(b.cond)
+            elif b.cond is not None:
+                for (op, l, rr) in common.cmp_both(strip_casts(b.cond)):
+                    if op in ("==", "!=") and strip_casts(rr).get("k") == "enum" and strip_casts(rr)["n"] in (OPC + "::TEXT", OPC + "::BINARY"):
+                        c = strip_casts(l)
+            if c is not None and c.get("k") == "var" and _is_opcode_t(c) and c.get("parm") is None:
+                self.dispatch.append(b)
+                xs[c["d"]] = c["n"]
+        if len(xs) != 1:
+            raise AnalysisBroken("%s handleDataFrame: the delivery dispatch does not read one WsOpcode local (found %s) — a shape this rule does not model" % (label, sorted(xs.values())))
+        self.x_d, self.x_name = list(xs.items())[0]
+        cbs = [e for e in f.stmts() if e.node.get("k") == "opcall" and e.node.get("op") == "()" and (field_of(e.node["args"][0]) or "").endswith(("::_onTextMessage", "::_onBinaryMessage"))]
+        if not any(search(f, ("block", b.id), lambda y, e=e: y is e, eh=False) is not None for b in self.dispatch for e in cbs) or len(cbs) < 2:
+            raise AnalysisBroken("%s handleDataFrame: the message callbacks are not reached from the opcode dispatch" % label)
+        # bool locals: single-definition ones whose initialiser is a formula over the vocabulary are substituted, the others are atoms
+        self.subst, self.batoms = {}, {}
+        decls = [(e, v) for e in sorted(f.stmts(), key=lambda e: (e.line, -e.block.id, e.idx)) if e.node.get("k") == "decl" for v in e.node["vars"] if (v.get("t") or "").replace("const ", "").strip() == "bool"]
+        writes = {}
+        for e in f.stmts():
+            if is_assign(e.node) and strip_casts(_ap(e.node)[0]).get("k") == "var":
+                writes.setdefault(strip_casts(_ap(e.node)[0])["d"], []).append(e)
+        for (e, v) in decls:
+            fm = total(translate(v["init"], self.leaf)) if v.get("init") is not None else None
+            if fm is not None and v["d"] not in writes and strip_casts(v["init"]).get("k") != "bool":
+                self.subst[v["d"]] = fm
+            else:
+                self.batoms[v["d"]] = "b:%s" % v["n"]
+        atoms = list(R8_IN + R8_ST) + sorted(self.batoms.values())
+        if len(atoms) > 12:
+            raise AnalysisBroken("%s handleDataFrame: %d boolean locals besides the reassembly vocabulary — too many for the exact abstraction" % (label, len(self.batoms)))
+        # nothing else may write the tracked objects: passing them by reference / taking their address is outside the model
+        for e in f.stmts():
+            n = e.node
+            if n.get("k") in ("call", "mcall", "ctor") and not (n.get("k") == "call" and n.get("callee") == "std::exchange"):
+                for a_ in n.get("args", []):
+                    s_ = strip_casts(a_)
+                    s_ = s_["v"] if s_ is not None and s_.get("k") == "un" and s_.get("op") == "&" else s_
+                    if s_ is not None and ((s_.get("k") == "var" and s_.get("d") == self.x_d) or (s_.get("k") == "member" and _is_opcode_t(s_) and field_of(s_) == self.rec)):
+                        raise AnalysisBroken("%s handleDataFrame: `%s` hands the delivered opcode / the opcode record to a callee (possibly by reference)" % (label, show(n)[:60]))
+        self.vocab = Vocab(atoms)
+        one = Or(And(A("fT"), Not(A("fB")), Not(A("fC"))), And(Not(A("fT")), A("fB"), Not(A("fC"))), And(Not(A("fT")), Not(A("fB")), A("fC")))
+        init = And(one, A("f_rec"), Not(A("f_own")), Not(A("x_rec")), Not(A("x_own")))
+        self.pa = PredAbs(f, self.vocab, self.leaf, self.effects, init=init, eh=False)
+
+    def is_frame(self, n):
+        n = strip_casts(n)
+        return n is not None and n.get("k") == "var" and n.get("d") == self.frame_d
+
+    def is_own(self, n):
+        n = strip_casts(n)
+        return n is not None and n.get("k") == "member" and n.get("n") == WF + "::opcode" and self.is_frame(n.get("b"))
+
+    def is_payload(self, n):
+        n = strip_casts(n)
+        return n is not None and n.get("k") == "member" and n.get("n") == WF + "::payload" and self.is_frame(n.get("b"))
+
+    def is_rec(self, n):
+        n = strip_casts(n)
+        return n is not None and n.get("k") == "member" and _is_opcode_t(n) and field_of(n) == self.rec
+
+    def is_x(self, n):
+        n = strip_casts(n)
+        return n is not None and n.get("k") == "var" and n.get("d") == self.x_d
+
+    def leaf(self, n):
+        if n.get("k") == "var" and n.get("d") in self.subst:
+            return self.subst[n["d"]]
+        if n.get("k") == "var" and n.get("d") in self.batoms:
+            return A(self.batoms[n["d"]])
+        if n.get("k") == "member" and n.get("n") == WF + "::fin" and self.is_frame(n.get("b")):
+            return A("fin")
+        for (op, l, rr) in common.cmp_both(n):
+            e_ = strip_casts(rr)
+            if op not in ("==", "!=") or e_ is None or e_.get("k") != "enum" or not e_["n"].startswith(OPC + "::"):
+                continue
+            fm = None
+            if self.is_own(l):
+                fm = {"TEXT": A("fT"), "BINARY": A("fB"), "CONTINUATION": A("fC")}.get(last(e_["n"]), F)
+            elif self.is_rec(l) and last(e_["n"]) == "CONTINUATION":
+                # `no message in progress`, read off the record: its entry value is CONTINUATION iff nothing is in progress; after
+                # `record = frame.opcode` it is the frame's; the only constant ever stored is CONTINUATION (checked in effects)
+                fm = Or(And(A("f_rec"), Not(A("inprog"))), And(A("f_own"), A("fC")), And(Not(A("f_rec")), Not(A("f_own"))))
+            if fm is not None:
+                return fm if op == "==" else Not(fm)
+        return None
+
+    def source(self, n, e):
+        """alternatives [(formula `holds the entry record`, formula `holds the frame's own opcode`)] of an opcode-valued expression; more than
+        one when a conditional expression chooses on a condition outside the vocabulary (either value is then possible)"""
+        n = strip_wrappers(strip_casts(n))
+        if n is None:
+            raise AnalysisBroken("%s handleDataFrame: opcode expression missing at line %d" % (self.label, e.line))
+        if self.is_own(n):
+            return [(F, T)]
+        if self.is_rec(n):
+            return [(A("f_rec"), A("f_own"))]
+        if self.is_x(n):
+            return [(A("x_rec"), A("x_own"))]
+        if n.get("k") == "enum" and n["n"].startswith(OPC + "::"):
+            return [(F, F)]
+        if n.get("k") == "cond":
+            c = total(translate(n["c"], self.leaf))
+            ts, fs = self.source(n["t"], e), self.source(n["f"], e)
+            if c is not None and len(ts) == 1 and len(fs) == 1:
+                (tr, to), (fr, fo) = ts[0], fs[0]
+                return [(Or(And(c, tr), And(Not(c), fr)), Or(And(c, to), And(Not(c), fo)))]
+            return ts + fs
+        raise AnalysisBroken("%s handleDataFrame: the opcode expression `%s` (line %d) is not the frame's opcode, the record, the delivered-opcode local or a constant" % (self.label, show(n)[:50], e.line))
+
+    def _store(self, which, n, e):
+        alts = self.source(n, e)
+        s0 = strip_wrappers(strip_casts(n))
+        if which == "f" and any(x.get("k") == "enum" and x["n"].startswith(OPC + "::") and last(x["n"]) != "CONTINUATION" for x in walk(s0)):
+            raise AnalysisBroken("%s handleDataFrame: the opcode record is set to the constant in `%s` (the rule reads CONTINUATION as `nothing in progress`)" % (self.label, show(n)[:40]))
+        if which == "x" and any(x.get("k") == "enum" and x["n"].startswith(OPC + "::") and last(x["n"]) != "CONTINUATION" for x in walk(s0)):
+            raise AnalysisBroken("%s handleDataFrame: the delivered opcode is set to the constant in `%s` — a message type that comes from neither the frame nor the record" % (self.label, show(n)[:40]))
+        ra, oa = which + "_rec", which + "_own"
+        if alts == [(A(ra), A(oa))]:
+            return []
+        if any({ra, oa} & (atoms_of(r_) | atoms_of(o_)) for (r_, o_) in alts):
+            raise AnalysisBroken("%s handleDataFrame: self-referential opcode assignment at line %d" % (self.label, e.line))
+        if len(alts) == 1:
+            return [("assign", ra, alts[0][0]), ("assign", oa, alts[0][1])]
+        iff = lambda a_, fm: Or(And(A(a_), fm), And(Not(A(a_)), Not(fm)))
+        return [("havoc", ra), ("havoc", oa), ("assume", Or(*[And(iff(ra, r_), iff(oa, o_)) for (r_, o_) in alts]))]
+
+    def effects(self, e):
+        if e.kind != "stmt":
+            return None
+        n = e.node
+        ops = []
+        if n.get("k") == "decl":
+            for v in n["vars"]:
+                if v["d"] == self.x_d:
+                    ops += self._store("x", v["init"], e) if v.get("init") is not None else [("set", "x_rec", False), ("set", "x_own", False)]
+                elif v["d"] in self.batoms:
+                    ops += self._bool(self.batoms[v["d"]], v.get("init"))
+            return ops
+        if n.get("k") == "call" and n.get("callee") == "std::exchange" and len(n.get("args", [])) == 2 and self.is_rec(n["args"][0]):
+            # the value of the call is the old record: an enclosing `x = std::exchange(record, v)` is evaluated AFTER this element in the
+            # CFG, so the old record is parked in x here when x is the target (the only supported use)
+            par = e.fn.nodes.get(e.fn.parent.get(n["id"]))
+            while par is not None and par.get("k") == "cast":
+                par = e.fn.nodes.get(e.fn.parent.get(par["id"]))
+            if par is None or not asg(par) or not self.is_x(asg(par)[0]):
+                raise AnalysisBroken("%s handleDataFrame: std::exchange on the opcode record whose value does not go to the delivered-opcode local" % self.label)
+            return self._store("x", n["args"][0], e) + self._store("f", n["args"][1], e)
+        a = asg(n)
+        if a:
+            if self.is_x(a[0]):
+                r0 = strip_wrappers(strip_casts(a[1]))
+                if r0.get("k") == "call" and r0.get("callee") == "std::exchange":
+                    return []          # done at the call element
+                return self._store("x", a[1], e)
+            if self.is_rec(a[0]):
+                return self._store("f", a[1], e)
+            l = strip_casts(a[0])
+            if l.get("k") == "var" and l.get("d") in self.batoms:
+                return self._bool(self.batoms[l["d"]], a[1])
+        elif is_assign(n):
+            l = strip_casts(_ap(n)[0])
+            if self.is_x(l) or self.is_rec(l):
+                raise AnalysisBroken("%s handleDataFrame: compound assignment to an opcode" % self.label)
+            if l.get("k") == "var" and l.get("d") in self.batoms:
+                return [("havoc", self.batoms[l["d"]])]
+        return None
+
+    def _bool(self, atom, rhs):
+        if rhs is None:
+            return [("havoc", atom)]
+        cv = const_value(strip_casts(rhs)) if strip_casts(rhs).get("k") in ("bool", "int") else None
+        if cv is not None:
+            return [("set", atom, bool(cv))]
+        fm = translate(rhs, self.leaf)
+        tf = total(fm)
+        if tf is not None and atom not in atoms_of(tf):
+            return [("assign", atom, tf)]
+        return [("havoc", atom), ("assume", Or(Not(A(atom)), known_when(fm, True))), ("assume", Or(A(atom), known_when(fm, False)))] if fm is not None and atom not in atoms_of(known_when(fm, True)) | atoms_of(known_when(fm, False)) else [("havoc", atom)]
+
+    # ---- results
+    def at_dispatch(self):
+        """abstract state (set of assignments) in which the delivery dispatch is entered: union over the dispatch blocks that are not
+        themselves reached from another dispatch block"""
+        st = 0
+        firsts = [b for b in self.dispatch if not any(o is not b and search(self.f, ("block", o.id), lambda y, b=b: y.block is b, eh=False) is not None for o in self.dispatch)]
+        for b in firsts:
+            s_ = self.pa.flow.block_in.get(b.id)
+            if s_:
+                st |= s_
+        return st, firsts
+
+    def table(self):
+        """{(opcode of the frame, fin, in progress): {(delivered under, record afterwards)}} — the inputs that reach delivery and what they deliver"""
+        st, _ = self.at_dispatch()
+        v = self.vocab
+        out = {}
+        for a in range(v.size):
+            if not (st >> a) & 1:
+                continue
+            val = {nm: bool((a >> v.idx[nm]) & 1) for nm in R8_IN + R8_ST}
+            op = "TEXT" if val["fT"] else "BINARY" if val["fB"] else "CONTINUATION"
+            key = (op, "FIN" if val["fin"] else "no FIN", "message in progress" if val["inprog"] else "nothing in progress")
+            # compared as VALUES: the entry record is the START frame's opcode while a message is in progress and CONTINUATION (none)
+            # otherwise; every constant stored is CONTINUATION (checked where it is stored; the local's initialiser included)
+            value = lambda r_, o_: ("the opcode recorded at START" if val["inprog"] else "CONTINUATION") if r_ else op if o_ else "CONTINUATION"
+            out.setdefault(key, set()).add(("under " + value(val["x_rec"], val["x_own"]), "record afterwards: " + value(val["f_rec"], val["f_own"]).replace("CONTINUATION", "none")))
+        return out
+
+
+def _emptiness_tests(f, buf):
+    """[(block, leaf)] branch conditions that test the emptiness of the field `buf`: empty(), size() compared with 0 / used as a truth value,
+    begin() == end(), also through single-definition locals initialised with such an expression"""
+    loc = {}
+    for e in f.stmts():
+        if e.node.get("k") == "decl":
+            for v in e.node["vars"]:
+                if v.get("init") is not None:
+                    loc[v["d"]] = v["init"]
+
+    def size_like(n, depth=0):
+        n = strip_casts(n)
+        if n is None:
+            return False
+        if n.get("k") == "mcall" and last(n.get("callee", "")) in ("size", "length") and field_of(n.get("obj")) == buf:
+            return True
+        if n.get("k") == "var" and n.get("d") in loc and depth < 3:
+            i = strip_casts(loc[n["d"]])
+            # `isStart ? 0 : buf.size()` is 0 for a start frame: compared with 0 it is `start or empty` — still an emptiness test
+            return size_like(i, depth + 1) or (i.get("k") == "cond" and (size_like(i["t"], depth + 1) or size_like(i["f"], depth + 1)))
+        return False
+
+    def empt(n, depth=0):
+        n = strip_casts(n)
+        if n is None:
+            return False
+        if n.get("k") == "mcall" and last(n.get("callee", "")) == "empty" and field_of(n.get("obj")) == buf:
+            return True
+        if size_like(n):
+            return True        # used as a truth value
+        for (op, l, rr) in common.cmp_both(n):
+            if size_like(l) and const_value(rr) in (0, 1) and (const_value(rr) == 0 or op in ("<", ">=")):
+                return True
+            if op in ("==", "!=") and all(x is not None and x.get("k") == "mcall" and field_of(x.get("obj")) == buf for x in (strip_casts(l), strip_casts(rr))) and {last(strip_casts(l)["callee"]), last(strip_casts(rr)["callee"])} == {"begin", "end"}:
+                return True
+        if n.get("k") == "var" and n.get("d") in loc and depth < 3 and "bool" in (n.get("t") or ""):
+            return any(empt(x, depth + 1) for x in walk(loc[n["d"]]) if x.get("k") in ("mcall", "bin", "opcall", "var"))
+        return False
+    out = []
+    for b in f.blocks.values():
+        if b.cond is None or len([s for s in b.succs if s is not None]) != 2:
+            continue
+        leaves = [c for (c, _t) in flatten_fact(b.cond, True)]
+        for x in walk(b.cond):
+            if x.get("k") == "bin" and x.get("op") in ("&&", "||"):
+                leaves += [c for side in (x["lhs"], x["rhs"]) for (c, _t) in flatten_fact(side, True)]
+        for c in leaves:
+            if empt(c):
+                out.append((b, c))
+                break
+    return out
+
+
+def r8(ctx, r):
+    """'fragments joined in order … the server and the client deliver the same sequence of complete messages': a message is delivered under
+    the opcode its START frame recorded.  Decided per endpoint by an exact predicate abstraction of handleDataFrame (class Reassembly), then
+    the two endpoints' delivery tables are compared."""
+    models = []
+    for cls, file, label in ((WS, WSF, "server"), (WC, WCF, "client")):
+        m = Reassembly(fnc(ctx, cls, "handleDataFrame", file), label)
+        models.append(m)
+        f, pa = m.f, m.pa
+        st, firsts = m.at_dispatch()
+        if not st:
+            raise AnalysisBroken("%s handleDataFrame: the delivery dispatch is unreachable in the abstraction" % label)
+        xdefs = [e for e in f.stmts() if (asg(e.node) and m.is_x(asg(e.node)[0])) or (e.node.get("k") == "decl" and any(v["d"] == m.x_d for v in e.node["vars"]))]
+
+        def culprits(bad):
+            """definitions of the delivered opcode after which `bad` is possible and that reach the dispatch without being overwritten"""
+            out = []
+            kinds = [k for k in (And(A("x_own"), Not(A("x_rec"))), And(Not(A("x_own")), Not(A("x_rec"))), A("x_rec")) if m.vocab.assume(st, And(bad, k))]
+            for e in xdefs:
+                s_ = pa.flow.after(e)
+                # (the value the definition leaves — own / constant / record — must be one that arrives at the dispatch in a bad state)
+                if s_ and any(m.vocab.assume(s_, And(bad, k)) for k in kinds) and any(search(f, e, lambda y, b=b: y.block is b, stop=lambda y, e=e: y in xdefs and y is not e, eh=False) is not None for b in firsts):
+                    out.append(e)
+            return out
+
+        def guards(e):
+            gs = [show(c)[:60] if t else "!(%s)" % show(c)[:60] for c, t in dominating_facts(f, e)]
+            return ", ".join("`%s`" % g for g in gs[-4:]) or "none"
+        # (i) a CONTINUATION frame that completes a message in progress delivers under the recorded opcode — never under its own
         r.instance()
-        r.ok("%s: %s" % (last(f.name), ", ".join(names)))
+        bad = And(A("fC"), A("inprog"), Not(A("x_rec")))
+        if m.vocab.assume(st, bad):
+            cs = culprits(bad) or [None]
+            for e in cs:
+                emp = [show(c)[:50] for (b, c) in _emptiness_tests(f, m.buf) if e is not None and (dominated_by_edge(f, e, b, 0, eh=False) or dominated_by_edge(f, e, b, 1, eh=False))]
+                r.fail(f, e, "%s: continuation delivered under its own opcode" % label, "%s handleDataFrame can deliver a message completed by a CONTINUATION frame while a fragmented message is in progress under %s instead of the opcode "
+                       "recorded at the START frame (%s): %s reaches the TEXT/BINARY dispatch for such a frame (guards on the way: %s)%s — the dispatch sees opcode CONTINUATION, no callback fires and the message is lost"
+                       % (label, "the frame's own opcode" if e is not None and m.vocab.assume(pa.flow.after(e), And(bad, A("x_own"))) else "a value that is not the record", short(m.rec), "`%s`" % show(e.node)[:60] if e is not None else "a path",
+                          guards(e) if e is not None else "?", ("; `%s` tests the reassembly buffer's emptiness, which does not mean `no message in progress`: the start fragments of a message may be empty" % emp[0]) if emp else ""))
+        else:
+            r.ok("%s: CONTINUATION + message in progress → delivered under the recorded opcode" % label)
+        # a TEXT/BINARY frame delivers under its own opcode (directly or through the record it has just written)
+        r.instance()
+        bad2 = And(Not(A("fC")), Not(A("x_own")))
+        if m.vocab.assume(st, bad2):
+            for e in culprits(bad2) or [None]:
+                r.fail(f, e, "%s: start frame not delivered under its own opcode" % label, "%s handleDataFrame can deliver a message whose last frame is a TEXT/BINARY frame under an opcode that is not that frame's (%s; guards: %s): "
+                       "the START frame's opcode is not what gets recorded/delivered" % (label, "`%s`" % show(e.node)[:60] if e is not None else "a path", guards(e) if e is not None else "?"))
+        else:
+            r.ok("%s: TEXT/BINARY FIN → delivered under the frame's opcode" % label)
+        # the opcode of a START frame that does not complete its message is recorded (else there is nothing to deliver the continuation under)
+        r.instance()
+        rdefs = [e for e in f.stmts() if asg(e.node) and m.is_rec(asg(e.node)[0]) and m.is_own(strip_wrappers(strip_casts(asg(e.node)[1])))]
+        r.expect(any(pa.flow.before(e) and m.vocab.assume(pa.flow.before(e), And(Not(A("fC")), Not(A("fin")))) for e in rdefs), f, rdefs[0] if rdefs else None, "%s: START opcode not recorded" % label,
+                 "%s handleDataFrame never stores the opcode of a TEXT/BINARY frame without FIN in %s: the CONTINUATION frames that follow have no recorded message type" % (label, short(m.rec)), okdesc="%s: record = frame.opcode for a START frame without FIN" % label)
+        # only completed messages are delivered
+        r.instance()
+        r.expect(not m.vocab.assume(st, Not(A("fin"))), f, None, "%s: delivery without FIN" % label, "%s handleDataFrame reaches the message dispatch for a frame without FIN" % label, okdesc="%s: delivery only with FIN" % label)
+        # (ii) `message in progress` is never read off the buffer's emptiness: no emptiness test of the reassembly buffer may decide anything
+        # but clearing that buffer
+        for (b, c) in _emptiness_tests(f, m.buf):
+            r.instance()
+            dep = []
+            for e in f.stmts():
+                if "root" not in e.raw or e.block is b:
+                    continue
+                n = e.node
+                if n.get("k") == "mcall" and last(n.get("callee", "")) in ("clear", "shrink_to_fit") and field_of(n.get("obj")) == m.buf:
+                    continue
+                if not (is_assign(n) or n.get("k") in ("call", "mcall", "opcall", "ret", "decl")):
+                    continue
+                if dominated_by_edge(f, e, b, 0, eh=False) != dominated_by_edge(f, e, b, 1, eh=False):
+                    dep.append(e)
+            # a conditional expression `empty ? a : b`: the statement that receives its value depends on the test
+            if b.term and b.term.get("k") in ("ConditionalOperator", "BinaryConditionalOperator"):
+                for x in f.nodes.values():
+                    if x.get("k") == "cond" and isinstance(x.get("c"), dict) and any(y is c or y.get("id") == c.get("id") for y in walk(x["c"])):
+                        re_ = f.root_elem(x)
+                        if re_ is not None and (is_assign(re_.node) or re_.node.get("k") in ("call", "mcall", "opcall", "ret", "decl")) and re_ not in dep:
+                            dep.append(re_)
+            r.expect(not dep, f, b.elems[-1] if b.elems else None, "%s: in-progress decided by buffer emptiness" % label, "%s handleDataFrame branches on `%s` — the emptiness of the reassembly buffer %s — and `%s` depends on the outcome: "
+                     "an empty buffer does not mean that no fragmented message is in progress (RFC 6455 allows empty start fragments); only the recorded opcode says so" % (label, show(c)[:60], short(m.buf), show(dep[0].node)[:50] if dep else ""),
+                     okdesc="%s: emptiness test guards nothing but clear()" % label)
+    # (iii) server and client agree: same inputs reach delivery, under the same opcode source, leaving the same record
+    ts, tc = models[0].table(), models[1].table()
+    r.instance()
+    if ts == tc:
+        r.ok("server and client deliver for the same (opcode, FIN, in-progress) inputs under the same opcode source: %d input classes" % len(ts))
+    else:
+        diffs = []
+        for k in sorted(set(ts) | set(tc)):
+            if ts.get(k) != tc.get(k):
+                dsc = lambda s_: "; or ".join("%s, %s" % x for x in sorted(s_)) if s_ else "does not deliver"
+                diffs.append("%s: server %s — client %s" % (" / ".join(k), dsc(ts.get(k)), dsc(tc.get(k))))
+        # reported at the endpoint that has a failure above, else at the client
+        where = models[1]
+        r.fail(where.f, None, "server and client reassembly disagree", "the two handleDataFrame implementations do not deliver the same messages for the same frames: %s" % " | ".join(diffs[:4]))
+
+
+# ------------------------------------------------------------------ helper following: the view of a function with its new helpers spliced in
+#
+# The rules above were written against a frozen set of functions (iora_sa/inventory.json).  A call to a function of the same class that is
+# NOT in that set is code that has been moved out of the function the rule reads (helper extraction).  view() returns the function with every
+# such call replaced by the callee's CFG: the callee's blocks are copied with fresh node / declaration / block numbers, its parameters are
+# replaced by the caller's argument expressions (so `pos += 2` on a `size_t& pos` parameter is an advance of the caller's cursor and
+# `sendClose(sid, code, reason)` inside failSession(sid, 1009, …) is a sendClose with the constant 1009), its returns continue behind the call
+# (a `return <bool constant>` of a callee that is the caller's branch condition goes straight to the matching successor), implicit destructors
+# stay where they are (a lock taken in the helper is released where the helper ends).  Calls to functions the rules know stay calls.  Nothing is
+# keyed on a name: the choice is `known to the rule tables or not`.  On the unchanged tree view(f) is f itself.
+
+_INV, _VIEWS, _UNFOLLOWED = [], {}, []
+
+
+def _known_functions():
+    if not _INV:
+        import json
+        import os
+        from .. import report
+        try:
+            _INV.append(set(json.load(open(report.INVENTORY)).get("functions", [])))
+        except OSError:
+            _INV.append(None)
+    return _INV[0]
+
+
+def _copy_tree(n, tf):
+    if isinstance(n, list):
+        return [_copy_tree(x, tf) for x in n]
+    if not isinstance(n, dict):
+        return n
+    r_ = tf(n)
+    if r_ is not None:
+        return r_
+    return {k: _copy_tree(v, tf) for k, v in n.items()}
+
+
+def _inline_one(fb, cur, known, counter):
+    """cur: Function; returns a new raw dict with one unknown same-class helper call spliced in, or None"""
+    from ..access import classify
+    from ..facts import Function
+    raw = cur.raw
+    for rb in raw["blocks"]:
+        for i, el in enumerate(rb["elems"]):
+            if "e" not in el or (el.get("k") and "e" not in el):
+                continue
+            n = cur.nodes.get(el["e"])
+            if n is None or n.get("k") not in ("call", "mcall") or not n.get("callee"):
+                continue
+            cal = n["callee"]
+            if n.get("virt"):
+                if cal not in known and cal not in _UNFOLLOWED and any("/include/iora/" in g.file or "/src/" in g.file for g in fb.by_name.get(cal, [])):
+                    _UNFOLLOWED.append(cal)     # a new virtual function: the dynamic target is not known here
+                continue
+            if cal in known or cal in (rb.get("inl") or []) or cal == cur.name or el["e"] in (raw.get("_spliced") or ()):
+                continue
+            defs = [g for g in fb.by_name.get(cal, []) if "/include/iora/" in g.file or "/src/" in g.file]
+            if not defs:
+                continue        # not a function of the library (std::…, OpenSSL, …)
+            args = [a for a in n.get("args", [])]
+            gs = [g for g in defs if g.ok and g.cls in (cur.cls, None) and g.file == cur.file and g.kind in ("method", "function") and len(g.params) == len(args)]
+            if (n.get("k") == "mcall" and (n.get("obj") or {}).get("k") != "this") or len(gs) != 1 or gs[0].raw.get("trys") or any(x.get("k") == "lambda" for x in gs[0].nodes.values()):
+                # an unknown function that cannot be spliced in (another object / class / file, overloads, try blocks, lambdas): the rules do
+                # not follow it — recorded so that the inventory guard keeps applying (FOLLOWS_HELPERS is withdrawn in run())
+                if cal not in _UNFOLLOWED:
+                    _UNFOLLOWED.append(cal)
+                continue
+            g = gs[0]
+            # a by-value parameter the callee writes is a separate object: substituting the caller's expression would be wrong
+            pd = {p["d"]: j for j, p in enumerate(g.params)}
+            def rebinds(x):
+                par = g.nodes.get(g.parent.get(x.get("id")))
+                while par is not None and par.get("k") == "cast":
+                    x, par = par, g.nodes.get(g.parent.get(par.get("id")))
+                if par is None:
+                    return False
+                if is_assign(par) and _ap(par)[0] is x:
+                    return True
+                return par.get("k") == "un" and (par.get("op") == "&" or "++" in par.get("op", "") or "--" in par.get("op", "")) and par.get("v") is x
+            if any(x.get("k") == "var" and x.get("d") in pd and "&" not in (g.params[pd[x["d"]]].get("t") or "") and rebinds(x) for x in g.nodes.values()):
+                if cal not in _UNFOLLOWED:
+                    _UNFOLLOWED.append(cal)
+                continue
+            # a by-value parameter initialised by a copy of a caller's object reads as that object
+            args = [strip_views(a) if (strip_casts(a).get("k") == "ctor" and strip_casts(a).get("copy") and "&" not in (g.params[j].get("t") or "")) else a for j, a in enumerate(args)]
+            # ---- numbering
+            mx = {"id": 0, "d": 0}
+
+            def scan(x, top=True):
+                if isinstance(x, list):
+                    for y in x:
+                        scan(y, top)
+                elif isinstance(x, dict):
+                    for k, v in x.items():
+                        if k in ("id", "d") and isinstance(v, int) and not (top and k == "id"):
+                            mx[k] = max(mx[k], v)
+                        elif k in ("e", "cond", "fullcond") and isinstance(v, int):
+                            mx["id"] = max(mx["id"], v)
+                        else:
+                            scan(v, False)
+            for b_ in raw["blocks"]:
+                for e_ in b_["elems"]:
+                    scan(e_, False)
+                scan(b_.get("label"), False)
+                scan(b_.get("term"), False)
+            scan(raw.get("params"), False)
+            off_n, off_d, off_b = max(mx["id"], max(list(cur.nodes) + [0])) + 1, mx["d"] + 1, max(b_["id"] for b_ in raw["blocks"]) + 1
+            gmax_n = max(list(g.nodes) + [0])
+            fresh = [off_n + gmax_n + 1]
+            idmap = {}
+
+            def fresh_copy(t):
+                def tf(x):
+                    if "id" in x:
+                        y = {k: _copy_tree(v, tf) for k, v in x.items() if k != "id"}
+                        y["id"] = fresh[0]
+                        fresh[0] += 1
+                        return y
+                    return None
+                return _copy_tree(t, tf)
+
+            def tf(x):
+                if x.get("k") == "var" and x.get("parm") is not None and x.get("d") in pd:
+                    c_ = fresh_copy(args[pd[x["d"]]])
+                    if "id" in x and "id" in c_:
+                        idmap[x["id"]] = c_["id"]
+                    return c_
+                y = {}
+                for k, v in x.items():
+                    if k == "id" and isinstance(v, int):
+                        y[k] = v + off_n
+                    elif k == "d" and isinstance(v, int):
+                        y[k] = v + off_d
+                    elif k == "k" and v == "ret" and "id" in x:
+                        y[k] = "retv"        # the callee's return is not a return of the function the rule reads
+                    else:
+                        y[k] = _copy_tree(v, tf)
+                return y
+            gexit, gentry = g.raw["exit"] + off_b, g.raw["entry"] + off_b
+            cont_id = off_b + max(b_["id"] for b_ in g.raw["blocks"]) + 1
+            # is the call the caller's branch condition (possibly under `!`)?
+            term = rb.get("term") or {}
+            parity, cn = 0, cur.nodes.get(term.get("fullcond") if term.get("fullcond") is not None and term.get("k") == "IfStmt" else term.get("cond"))
+            if cn is not None and term.get("k") == "IfStmt" and term.get("fullcond") is not None and cur.nodes.get(term["fullcond"]) is not None:
+                cn = cur.nodes[term["fullcond"]]
+            while cn is not None and cn.get("k") == "un" and cn.get("op") == "!" and isinstance(cn.get("v"), dict):
+                parity, cn = parity ^ 1, cn["v"]
+            is_cond = cn is not None and cn.get("id") == n.get("id") and len(rb["succs"]) == 2 and all(isinstance(s_, int) for s_ in rb["succs"])
+            chain = list(rb.get("inl") or []) + [cal]
+            gblocks, routed_all = [], True
+            for gb in g.raw["blocks"]:
+                nb = {"id": gb["id"] + off_b, "elems": [], "succs": [(s_ + off_b) if isinstance(s_, int) else s_ for s_ in gb["succs"]], "inl": chain}
+                const_ret = None
+                for ge in gb["elems"]:
+                    if "e" in ge:
+                        ne = {k: v for k, v in ge.items() if k not in ("e", "root")}
+                        ne["e"] = idmap.get(ge["e"], ge["e"] + off_n)
+                        if "root" in ge:
+                            ne["root"] = _copy_tree(ge["root"], tf)
+                            ne["e"] = idmap.get(ge["e"], ne["root"].get("id", ne["e"]))
+                            if ge["root"].get("k") == "ret":
+                                v_ = ge["root"].get("v")
+                                const_ret = ("c", v_["cv"]) if isinstance(v_, dict) and v_.get("k") == "bool" and "cv" in v_ else \
+                                    ("e", ne["root"]["v"].get("id")) if isinstance(v_, dict) and g.raw.get("ret") == "bool" and isinstance(ne["root"].get("v"), dict) and ne["root"]["v"].get("id") is not None else ("v", None)
+                        if el.get("try") and not ne.get("try"):
+                            ne["try"] = el["try"]
+                        nb["elems"].append(ne)
+                    else:
+                        ne = dict(ge)
+                        if isinstance(ne.get("d"), int):
+                            ne["d"] += off_d
+                        nb["elems"].append(ne)
+                if "term" in gb:
+                    t_ = dict(gb["term"])
+                    for k in ("cond", "fullcond"):
+                        if isinstance(t_.get(k), int):
+                            t_[k] = idmap.get(t_[k], t_[k] + off_n)
+                    nb["term"] = t_
+                if "label" in gb and gb["label"] is not None:
+                    nb["label"] = _copy_tree(gb["label"], tf)
+                if gb.get("noreturn"):
+                    nb["noreturn"] = gb["noreturn"]
+                if const_ret is not None and gexit in nb["succs"]:
+                    if is_cond and const_ret[0] == "c":
+                        truth = bool(const_ret[1]) != bool(parity)
+                        nb["succs"] = [rb["succs"][0] if truth else rb["succs"][1]]
+                    elif is_cond and const_ret[0] == "e" and "term" not in nb:
+                        # `return <condition>;` of a callee that is the caller's branch condition: the caller branches on that condition
+                        nb["term"] = {"k": "IfStmt", "l": term.get("l", 0), "cond": const_ret[1]}
+                        nb["succs"] = [rb["succs"][1], rb["succs"][0]] if parity else [rb["succs"][0], rb["succs"][1]]
+                    else:
+                        routed_all = False
+                elif gexit in nb["succs"] and nb["id"] != gexit:
+                    routed_all = False      # falls off the end of a void callee
+                gblocks.append(nb)
+            # (elements that referred to a substituted parameter node keep pointing at the copy; fix the ones emitted before the map was complete)
+            for nb in gblocks:
+                for ne in nb["elems"]:
+                    if "e" in ne and "root" not in ne and (ne["e"] - off_n) in idmap:
+                        ne["e"] = idmap[ne["e"] - off_n]
+                if "term" in nb:
+                    for k in ("cond", "fullcond"):
+                        if isinstance(nb["term"].get(k), int) and (nb["term"][k] - off_n) in idmap:
+                            nb["term"][k] = idmap[nb["term"][k] - off_n]
+            new = {k: v for k, v in raw.items() if k != "blocks"}
+            blocks = []
+            for ob in raw["blocks"]:
+                if ob is not rb:
+                    blocks.append(ob)
+                    continue
+                head = {k: v for k, v in ob.items() if k not in ("elems", "succs", "term")}
+                head["elems"] = ob["elems"][:i]
+                head["succs"] = [gentry]
+                blocks.append(head)
+                if not (is_cond and routed_all):
+                    cont = {"id": cont_id, "elems": ob["elems"][i:], "succs": list(ob["succs"]), "inl": ob.get("inl")}
+                    if "term" in ob:
+                        cont["term"] = ob["term"]
+                    blocks.append(cont)
+                    for nb in gblocks:
+                        if nb["id"] == gexit:
+                            nb["succs"] = [cont_id]
+                else:
+                    gblocks = [nb for nb in gblocks if nb["id"] != gexit]
+            new["blocks"] = blocks + gblocks
+            new["_spliced"] = list(raw.get("_spliced") or []) + [el["e"]]
+            counter.append(cal)
+            return new
+    return None
+
+
+def view(ctx, f):
+    """f with the calls to same-class functions the rule tables have never seen spliced in (f itself when there are none)"""
+    from ..facts import Function
+    key = (ctx.config, f.sig)
+    if key in _VIEWS:
+        return _VIEWS[key]
+    known = _known_functions()
+    out = f
+    if known is not None and f.ok:
+        fb = ctx.fb()
+        cur, done = f, []
+        for _ in range(24):
+            raw = _inline_one(fb, cur, known, done)
+            if raw is None:
+                break
+            cur = Function(raw)
+            if not cur.ok:
+                raise AnalysisBroken("%s: splicing in %s produced no CFG" % (short(f.name), done[-1]))
+        if done:
+            cur.sig = f.sig + "#with:" + ",".join(last(x) for x in done)
+            cur.lambdas = list(f.lambdas)
+            cur.enclosing = f.enclosing
+            cur.followed = done
+            # entry lockset of the view = entry lockset of the function itself
+            la = ctx.locks()
+            la._entry[cur.sig] = la._entry.get(f.sig)
+            out = cur
+    _VIEWS[key] = out
+    return out
+
+
+def anchors(ctx, r):
+    """The rules no longer identify anything through a local NAME: every role is derived from types and dataflow (the BufferView parameter, the
+    local used as `data[x++]`, the out-parameter handed to parse(), the view {L.data() + off, L.size() - off}, the WebSocketFrame parameter, the
+    WsOpcode field that is assigned, …).  This rule derives them once and shows them; a role that cannot be derived is a refusal (exit 2)."""
+    p = wf(ctx, "parse")
+    DATA, CUR, CONS = parse_roles(p)
+    hb = header_bytes(p, DATA, CUR)
+    r.instance()
+    r.expect(len(hb) >= 2, p, None, "roles: parse", "header byte locals not found", okdesc="parse: input %s, cursor %s, consumed %s, header bytes %s" % (DATA, CUR, CONS, hb[:2]))
+    for cls, file, fnm in ((WS, WSF, "onUpgradedData"), (WC, WCF, "handleData")):
+        f = fnc(ctx, cls, fnm, file)
+        pl = ParseLoop(f, fnm)
+        r.instance()
+        if pl.L is None or pl.frame is None or pl.field is None:
+            raise AnalysisBroken("%s: the parse loop's buffer / offset / frame variable / source member could not be identified from the parse() call" % last(f.name))
+        r.ok("%s: buffer %s (from %s), offset %s, consumed %s, frame %s" % (fnm, pl.L, short(pl.field), pl.off, pl.cons, pl.frame))
+    for cls, file in ((WS, WSF), (WC, WCF)):
+        for fnm in ("handleFrame", "handleDataFrame"):
+            f = fnc(ctx, cls, fnm, file)
+            r.instance()
+            r.ok("%s::%s: frame parameter %s" % (last(cls), fnm, frame_param(f)))
 
 
 def run(ctx, ck):
-    r0 = ck.run_rule("C18-R0", "the local names the rules are anchored on exist (a rename makes the analysis refuse — exit 2 — instead of raising a false alarm)", "anchor table", lambda r: anchors(ctx, r))
+    r0 = ck.run_rule("C18-R0", "the roles the rules speak about (input view, cursor, consumed, parse-loop buffer/offset, frame parameter) are derived from types and dataflow, not from local names", "role derivation", lambda r: anchors(ctx, r))
     if r0.broken:
         return
     ck.run_rule("C18-R1", "frame decoder stays inside the bytes present; peer length admitted only in subtraction form", "A7 cursor-window abstract interpretation with a symbolic length", lambda r: r1(ctx, r))
@@ -797,3 +1958,10 @@ def run(ctx, ck):
     ck.run_rule("C18-R5", "protocol reactions: pong, single close echo, UTF-8 on the reassembled message, 1009/1002, fragment order", "A2 + dataflow", lambda r: r5(ctx, r))
     ck.run_rule("C18-R6", "parse loops consume exactly what was framed; remainder order", "A2", lambda r: r6(ctx, r))
     ck.run_rule("C18-R7", "nothing on the data-callback path throws", "A9", lambda r: r7(ctx, r))
+    FOLLOWS_HELPERS.clear()
+    FOLLOWS_HELPERS.update({"C18-R%d" % i: _FOLLOWS for i in (1, 2, 3, 4, 5, 6, 8)})
+    FOLLOWS_HELPERS["C18-R7"] = "walks the call graph from the data callbacks itself: every function reached, known or new, is scanned for throwing primitives"
+    ck.run_rule("C18-R8", "a completed message is delivered under the opcode its START frame recorded; `in progress` is never read off the buffer's emptiness; server and client agree", "A5 exact predicate abstraction + A11 sibling tables", lambda r: r8(ctx, r))
+    if _UNFOLLOWED:
+        FOLLOWS_HELPERS.clear()     # something new could not be followed: violations in code that runs through it are refusals (inventory guard)
+        ck.extra["functions_not_followed"] = sorted(_UNFOLLOWED)[:20]
